@@ -44,12 +44,12 @@ Definition backed (c : nat) (r : option nat) (seen : list tev) : bool :=
   has_ev (ev_stop c r) seen || (onat_eqb r (Some 1) && has_ev (ev_drain c) seen).
 
 (* the classification clause of judge_sup *)
-Definition cls (x : supevt) (seen : list tev) : bool :=
+Definition cls (locs : list bool) (x : supevt) (seen : list tev) : bool :=
   match x with
   | SStarted _ => true
   | STerminated c st reason =>
     match ending_of c seen EndNone, st, reason with
-    | EndGraceful, true, r => backed c r seen
+    | EndGraceful, st', r => Bool.eqb st' (negb (nth c locs false)) && backed c r seen
     | EndNone, false, Some 0 => has_ev (ev_kill c) seen
     | EndNone, false, Some 2 => has_ev (ev_abort c) seen
     | _, _, _ => false
@@ -64,27 +64,27 @@ Definition cnt_ok (s : nat) (x : supevt) (seen : list tev) : bool :=
   | _ => Nat.eqb (count_sup s (fun y => is_terminal y && Nat.eqb (about y) (about x)) seen) 0
   end.
 
-Lemma judge_sup_split links seen s x :
+Lemma judge_sup_split links locs seen s x :
   onat_eqb (nth (about x) links None) (Some s) = true ->
-  cnt_ok s x seen = true -> cls x seen = true ->
-  judge_sup links seen s x = true.
+  cnt_ok s x seen = true -> cls locs x seen = true ->
+  judge_sup links locs seen s x = true.
 Proof.
   intros Hl Hc Hk. unfold judge_sup. rewrite Hl. simpl.
   destruct x as [c|c st r|c txt]; simpl in *.
   - exact Hc.
   - rewrite Hc. simpl.
-    destruct (ending_of c seen EndNone); try discriminate; destruct st; try discriminate.
-    + destruct r as [[|[|[|n]]]|]; try discriminate; exact Hk.
-    + unfold backed in Hk. unfold ev_stop, ev_drain in Hk.
-      destruct r as [[|[|n]]|]; simpl in Hk; rewrite ?orb_false_r in Hk; try exact Hk.
+    destruct (ending_of c seen EndNone); try discriminate.
+    + destruct st; try discriminate. destruct r as [[|[|[|n]]]|]; try discriminate; exact Hk.
+    + apply andb_prop in Hk. destruct Hk as [Hb Hk]. unfold backed in Hk. unfold ev_stop, ev_drain in Hk.
+      destruct r as [[|[|n]]|]; simpl in Hk; rewrite ?orb_false_r in Hk; rewrite Hb; simpl; try exact Hk.
       rewrite orb_comm. exact Hk.
   - rewrite Hc. exact Hk.
 Qed.
 
-Lemma check_go_app links seen t e :
-  check_C04_go links seen (t ++ [e]) =
-  check_C04_go links seen t &&
-  match e with TEnter s (Sup x) => judge_sup links (seen ++ t) s x | _ => true end.
+Lemma check_go_app links locs seen t e :
+  check_C04_go links locs seen (t ++ [e]) =
+  check_C04_go links locs seen t &&
+  match e with TEnter s (Sup x) => judge_sup links locs (seen ++ t) s x | _ => true end.
 Proof.
   revert seen. induction t as [|y r IH]; intros seen; simpl.
   - rewrite app_nil_r, andb_true_r. reflexivity.
@@ -161,14 +161,16 @@ Lemma post_start_ok_app c t e :
   post_start_ok c t || match e with TExit j PostStart ROk => Nat.eqb j c | _ => false end.
 Proof. unfold post_start_ok. apply has_ev_app. Qed.
 
-Lemma cls_stable x t e :
-  subj_end e <> Some (about x) -> cls x t = true -> cls x (t ++ [e]) = true.
+Lemma cls_stable locs x t e :
+  subj_end e <> Some (about x) -> cls locs x t = true -> cls locs x (t ++ [e]) = true.
 Proof.
   intros Hs H. destruct x as [c|c st r|c txt]; simpl in *; auto.
   - rewrite ending_of_app, end_step_other by assumption.
-    destruct (ending_of c t EndNone); try discriminate; destruct st; try discriminate.
-    + destruct r as [[|[|[|n]]]|]; try discriminate; rewrite has_ev_app, H; reflexivity.
-    + unfold backed in *. rewrite !has_ev_app.
+    destruct (ending_of c t EndNone); try discriminate.
+    + destruct st; try discriminate.
+      destruct r as [[|[|[|n]]]|]; try discriminate; rewrite has_ev_app, H; reflexivity.
+    + apply andb_true_iff in H as [Hb H]. rewrite Hb. simpl.
+      unfold backed in *. rewrite !has_ev_app.
       apply orb_true_iff in H as [H|H]; [rewrite H; reflexivity|].
       apply andb_true_iff in H as [H1 H2]. rewrite H1, H2. simpl. apply orb_true_r.
   - rewrite ending_of_app, end_step_other by assumption. exact H.
@@ -215,6 +217,12 @@ Definition supq_of (w : world) (s : nat) : list supevt :=
 Definition K (w : world) (s : nat) : list supevt := hl s (trace_of w) ++ supq_of w s.
 Definition link_of (w : world) (c : nat) : option nat :=
   match get w c with Some a => c_link (a_cfg a) | None => None end.
+Definition local_of (w : world) (c : nat) : bool :=
+  match get w c with Some a => c_local (a_cfg a) | None => false end.
+(* no link will be made for this actor any more: a Send actor links when pre_start has returned
+   (and is marked running in the same step), a thread-local one in the step that sets Starting *)
+Definition nl (a : actor) : Prop :=
+  a_notify a = true \/ (c_local (a_cfg a) = true /\ 1 <= a_status a).
 Definition dead (w : world) (c : nat) : Prop :=
   match get w c with Some a => a_armed a = false | None => False end.
 Definition pre_pc (p : pc) : bool :=
@@ -226,34 +234,36 @@ Definition past_ps (p : pc) : bool :=
 
 Record AInv (tr : list tev) (x : option nat) (i : nat) (a : actor) : Prop := mkAInv {
   A1 : forall s, a_sup a = Some s -> c_link (a_cfg a) = Some s;
-  A2 : pre_pc (a_pc a) = true -> a_sup a = None /\ a_notify a = false;
+  A2 : pre_pc (a_pc a) = true ->
+       a_notify a = false /\ (a_sup a <> None -> c_local (a_cfg a) = true /\ 1 <= a_status a);
   A3 : forall r, a_stop a = Some r -> has_ev (ev_stop i r) tr = true;
   A4 : In Marker (a_msgq a) -> has_ev (ev_drain i) tr = true;
   A5 : forall rest f p, a_pc a = InCb PostStop rest f p -> backed i (a_reason a) tr = true;
   A6 : a_armed a = true -> a_sig a = true ->
-       has_ev (ev_kill i) tr = true \/ (a_sup a = None /\ a_notify a = true);
+       has_ev (ev_kill i) tr = true \/ (a_sup a = None /\ nl a);
   A7 : a_armed a = true -> x <> Some i -> ending_of i tr EndNone = EndNone;
   A8 : past_ps (a_pc a) = false -> post_start_ok i tr = false
 }.
 
 Definition TreeInv (w : world) : Prop :=
   forall p ap ks c, get w p = Some ap -> a_kids ap = Some ks -> In c ks ->
-    exists ac, get w c = Some ac /\ a_sup ac = Some p /\ a_notify ac = true.
+    exists ac, get w c = Some ac /\ a_sup ac = Some p /\ nl ac.
 
-Record KInv (x : option nat) (w : world) (s : nat) : Prop := mkKInv {
+Record KInv (locs : list bool) (x : option nat) (w : world) (s : nat) : Prop := mkKInv {
   Q1 : forall e, In e (K w s) -> link_of w (about e) = Some s;
   Q2 : forall c, In (SStarted c) (K w s) -> post_start_ok c (trace_of w) = true;
   Q3 : forall e, In e (K w s) -> is_terminal e = true ->
-         (dead w (about e) \/ x = Some (about e)) /\ cls e (trace_of w) = true;
+         (dead w (about e) \/ x = Some (about e)) /\ cls locs e (trace_of w) = true;
   Q4 : shape (K w s)
 }.
 
-Record Inv4 (links : list (option nat)) (x : option nat) (w : world) : Prop := mkInv4 {
+Record Inv4 (links : list (option nat)) (locs : list bool) (x : option nat) (w : world) : Prop := mkInv4 {
   i_links : forall c, nth c links None = link_of w c;
-  i_chk : check_C04_go links [] (trace_of w) = true;
+  i_chk : check_C04_go links locs [] (trace_of w) = true;
   i_act : forall i a, get w i = Some a -> AInv (trace_of w) x i a;
   i_tree : TreeInv w;
-  i_K : forall s, KInv x w s
+  i_K : forall s, KInv locs x w s;
+  i_locs : forall c, nth c locs false = local_of w c
 }.
 
 (* no terminal event about j is known to anybody *)
@@ -263,10 +273,10 @@ Definition noterm (w : world) (j : nat) : Prop :=
 Definition nonabout (w : world) (j : nat) : Prop :=
   forall s y, In y (K w s) -> about y <> j.
 
-Lemma noterm_alive links x w j a :
-  Inv4 links x w -> get w j = Some a -> a_armed a = true -> x <> Some j -> noterm w j.
+Lemma noterm_alive links locs x w j a :
+  Inv4 links locs x w -> get w j = Some a -> a_armed a = true -> x <> Some j -> noterm w j.
 Proof.
-  intros H Eg Ha Hx s y Hy Ht E. destruct (Q3 _ _ _ (i_K _ _ _ H s) y Hy Ht) as [[D|D] _].
+  intros H Eg Ha Hx s y Hy Ht E. destruct (Q3 _ _ _ _ (i_K _ _ _ _ H s) y Hy Ht) as [[D|D] _].
   - unfold dead in D. rewrite E, Eg in D. congruence.
   - rewrite E in D. contradiction.
 Qed.
@@ -303,14 +313,14 @@ Qed.
 Lemma K_emit_plain w e s : is_sup_enter e = false -> K (emit w e) s = K w s.
 Proof. intros H. unfold K. rewrite trace_of_emit, hl_snoc_plain by assumption. reflexivity. Qed.
 
-Lemma inv4_emit links x x' w e :
-  Inv4 links x w -> is_sup_enter e = false ->
+Lemma inv4_emit links locs x x' w e :
+  Inv4 links locs x w -> is_sup_enter e = false ->
   (forall j, subj_end e = Some j -> (x' = Some j \/ dead w j) /\ noterm w j) ->
   (forall j a, e = TExit j PostStart ROk -> get w j = Some a -> past_ps (a_pc a) = true) ->
   (x' = x \/ x = None) ->
-  Inv4 links x' (emit w e).
+  Inv4 links locs x' (emit w e).
 Proof.
-  intros [h1 h2 h3 h4 h5] Hpl Hs Hp Hx. constructor.
+  intros [h1 h2 h3 h4 h5 h6] Hpl Hs Hp Hx. constructor.
   - exact h1.
   - rewrite trace_of_emit, check_go_app, h2. destruct e as [j c| | | | | | | | | | | |]; auto.
     destruct c; auto. discriminate.
@@ -327,6 +337,7 @@ Proof.
       * rewrite trace_of_emit. apply cls_stable; [|exact C].
         intros E. destruct (Hs _ E) as [_ N]. apply (N s y Hy Ht). reflexivity.
     + exact q4.
+  - exact h6.
 Qed.
 
 (* ------------------------------------------------------------------ *)
@@ -360,10 +371,20 @@ Qed.
 (* what may happen to one actor in a silent step *)
 Definition LR (a a' : actor) : Prop :=
   (a_supq a' = a_supq a \/ exists e, a_supq a = e :: a_supq a')
-  /\ a_cfg a' = a_cfg a /\ (a_armed a' = true -> a_armed a = true).
+  /\ a_cfg a' = a_cfg a /\ (a_armed a' = true -> a_armed a = true)
+  /\ a_status a <= a_status a'.
+
+#[local] Hint Resolve Nat.le_max_l : core.
 
 Lemma LR_refl a : LR a a.
-Proof. unfold LR. auto. Qed.
+Proof. unfold LR. auto 6. Qed.
+
+Lemma nl_pres a a' :
+  a_notify a' = a_notify a -> a_cfg a' = a_cfg a -> a_status a <= a_status a' -> nl a -> nl a'.
+Proof. unfold nl. intros -> -> L [A|[A B]]; [left; exact A|right; split; [exact A|lia]]. Qed.
+Lemma nl_pres' a a' :
+  (a_notify a = true -> a_notify a' = true) -> a_cfg a' = a_cfg a -> a_status a <= a_status a' -> nl a -> nl a'.
+Proof. unfold nl. intros N -> L [A|[A B]]; [left; auto|right; split; [exact A|lia]]. Qed.
 
 Definition tagcase (x x' : option nat) (w' : world) : Prop :=
   x' = x \/ x = None \/ (exists i, x = Some i /\ x' = None /\ dead w' i).
@@ -381,14 +402,14 @@ Proof.
   destruct (HL s a E) as (A & _). exact A.
 Qed.
 
-Lemma inv4_pw links x x' F w w' :
-  Inv4 links x w -> pw F w w' ->
+Lemma inv4_pw links locs x x' F w w' :
+  Inv4 links locs x w -> pw F w w' ->
   (forall j a, get w j = Some a -> AInv (trace_of w) x j a ->
      LR a (F j a) /\ AInv (trace_of w) x' j (F j a)) ->
   TreeInv w' -> tagcase x x' w' ->
-  Inv4 links x' w'.
+  Inv4 links locs x' w'.
 Proof.
-  intros [h1 h2 h3 h4 h5] Hpw HF Htree Htag.
+  intros [h1 h2 h3 h4 h5 h6] Hpw HF Htree Htag.
   pose proof (trace_of_pw _ _ _ Hpw) as Et.
   assert (HLR : forall j a, get w j = Some a -> LR a (F j a)).
   { intros j a E. apply (HF j a E). apply h3. exact E. }
@@ -397,7 +418,7 @@ Proof.
     destruct (HLR c a E) as (_ & -> & _). reflexivity. }
   assert (Hdead : forall c, dead w c -> dead w' c).
   { intros c. unfold dead. destruct Hpw as [_ g]. rewrite g. destruct (get w c) as [a|] eqn:E; simpl; auto.
-    destruct (HLR c a E) as (_ & _ & A). intros D. destruct (a_armed (F c a)); auto.
+    destruct (HLR c a E) as (_ & _ & A & _). intros D. destruct (a_armed (F c a)); auto.
     specialize (A eq_refl). congruence. }
   constructor.
   - intros c. rewrite Hlink. apply h1.
@@ -419,6 +440,9 @@ Proof.
       injection D as <-. left. exact Di.
     + rewrite E2. rewrite E1 in q4. destruct Hq as [->|(e & ->)]; [exact q4|].
       apply shape_drop with (e := e). exact q4.
+  - intros c. rewrite h6. unfold local_of. destruct Hpw as [_ g]. rewrite g.
+    destruct (get w c) as [a|] eqn:E; simpl; auto.
+    destruct (HLR c a E) as (_ & -> & _). reflexivity.
 Qed.
 
 (* ------------------------------------------------------------------ *)
@@ -429,35 +453,43 @@ Ltac ainv_tac :=
   match goal with H : AInv _ _ _ _ |- _ =>
     let a1 := fresh "a1" in let a2 := fresh "a2" in let a3 := fresh "a3" in let a4 := fresh "a4" in
     let a5 := fresh "a5" in let a6 := fresh "a6" in let a7 := fresh "a7" in let a8 := fresh "a8" in
-    destruct H as [a1 a2 a3 a4 a5 a6 a7 a8] end;
-  constructor; simpl in *; auto.
+    destruct H as [a1 a2 a3 a4 a5 a6 a7 a8];
+    constructor; simpl in *; auto;
+    (* A2 / A6 when only the status grew or notify was left alone *)
+    try (let Hp := fresh "Hp" in let N := fresh "N" in let Hq := fresh "Hq" in
+         intros Hp; destruct (a2 Hp) as [? Hq]; split; [assumption|];
+         intros N; destruct (Hq N); split; [assumption|lia]);
+    try (let Ha := fresh "Ha" in let Hs := fresh "Hs" in let A := fresh "A" in let B := fresh "B" in
+         intros Ha Hs; destruct (a6 Ha Hs) as [A|[A B]]; [left; exact A|right; split; [exact A|]];
+         unfold nl in *; simpl; destruct B as [B|[B ?]]; [left; exact B|right; split; [exact B|lia]])
+  end.
 
 Lemma tree_pw F w w' :
   TreeInv w -> pw F w w' ->
   (forall j a, get w j = Some a ->
      (forall ks', a_kids (F j a) = Some ks' -> exists ks, a_kids a = Some ks /\ incl ks' ks)
-     /\ a_sup (F j a) = a_sup a /\ a_notify (F j a) = a_notify a) ->
+     /\ a_sup (F j a) = a_sup a /\ (nl a -> nl (F j a))) ->
   TreeInv w'.
 Proof.
   intros HT [_ g] HF p ap' ks' c Ep Ek Hin. rewrite g in Ep.
   destruct (get w p) as [ap|] eqn:E; simpl in Ep; [|discriminate]. injection Ep as <-.
   destruct (HF p ap E) as (A & _ & _). destruct (A ks' Ek) as (ks & Ek0 & Hincl).
   destruct (HT p ap ks c E Ek0 (Hincl c Hin)) as (ac & Ec & Es & En).
-  exists (F c ac). rewrite g, Ec. simpl. destruct (HF c ac Ec) as (_ & -> & ->). auto.
+  exists (F c ac). rewrite g, Ec. simpl. destruct (HF c ac Ec) as (_ & -> & Hn). auto.
 Qed.
 
 Lemma tagcase_same x w : tagcase x x w.
 Proof. left. reflexivity. Qed.
 
 (* one actor updated; supervision fields untouched *)
-Lemma inv4_upd links x x' w i f a :
-  Inv4 links x w -> get w i = Some a ->
+Lemma inv4_upd links locs x x' w i f a :
+  Inv4 links locs x w -> get w i = Some a ->
   LR a (f a) ->
   (forall ks', a_kids (f a) = Some ks' -> exists ks, a_kids a = Some ks /\ incl ks' ks) ->
   a_sup (f a) = a_sup a -> a_notify (f a) = a_notify a ->
   (AInv (trace_of w) x i a -> AInv (trace_of w) x' i (f a)) ->
   (x' = x \/ x = None \/ (x = Some i /\ x' = None /\ a_armed (f a) = false)) ->
-  Inv4 links x' (upd w i f).
+  Inv4 links locs x' (upd w i f).
 Proof.
   intros H Eg HL Hk Hs Hn HA Htag.
   eapply inv4_pw with (x := x); [exact H|apply pw_upd| | |].
@@ -466,9 +498,10 @@ Proof.
     + split; [apply LR_refl|]. destruct Ab as [a1 a2 a3 a4 a5 a6 a7 a8]. constructor; auto.
       intros Harm Hx. apply a7; auto.
       destruct Htag as [->|[->|(-> & -> & _)]]; [exact Hx|discriminate|congruence].
-  - eapply tree_pw; [exact (i_tree _ _ _ H)|apply pw_upd|].
+  - eapply tree_pw; [exact (i_tree _ _ _ _ H)|apply pw_upd|].
     intros j b Eb. cbv beta. destruct (Nat.eqb_spec i j) as [<-|Hne].
-    + rewrite Eg in Eb. injection Eb as <-. auto.
+    + rewrite Eg in Eb. injection Eb as <-. destruct HL as (_ & Lc & _ & Ls).
+      split; [exact Hk|]. split; [exact Hs|]. apply nl_pres; assumption.
     + split; [|auto]. intros ks' E. exists ks'. split; [exact E|apply incl_refl].
   - destruct Htag as [->|[->|(-> & -> & D)]]; [left; reflexivity|right; left; reflexivity|].
     right; right. exists i. split; [reflexivity|split; [reflexivity|]].
@@ -494,16 +527,24 @@ Proof.
   - rewrite get_upd_other by assumption. reflexivity.
 Qed.
 
+Lemma local_upd_same w i f c :
+  (forall a, get w i = Some a -> a_cfg (f a) = a_cfg a) -> local_of (upd w i f) c = local_of w c.
+Proof.
+  intros Hf. unfold local_of. destruct (Nat.eq_dec i c) as [->|Hne].
+  - rewrite get_upd_same. destruct (get w c) as [a|] eqn:E; simpl; auto. now rewrite (Hf a eq_refl).
+  - rewrite get_upd_other by assumption. reflexivity.
+Qed.
+
 (* (N) one event appended to the supervision queue of s *)
-Lemma inv4_push links x w s e :
-  Inv4 links x w -> get w s <> None ->
+Lemma inv4_push links locs x w s e :
+  Inv4 links locs x w -> get w s <> None ->
   link_of w (about e) = Some s ->
   (forall c, e = SStarted c -> post_start_ok c (trace_of w) = true) ->
-  (is_terminal e = true -> (dead w (about e) \/ x = Some (about e)) /\ cls e (trace_of w) = true) ->
+  (is_terminal e = true -> (dead w (about e) \/ x = Some (about e)) /\ cls locs e (trace_of w) = true) ->
   cross (K w s) [e] ->
-  Inv4 links x (upd w s (fun a => upd_supq a (a_supq a ++ [e]))).
+  Inv4 links locs x (upd w s (fun a => upd_supq a (a_supq a ++ [e]))).
 Proof.
-  intros [h1 h2 h3 h4 h5] Hs Hl Hst Htm Hcr.
+  intros [h1 h2 h3 h4 h5 h6] Hs Hl Hst Htm Hcr.
   set (f := fun a => upd_supq a (a_supq a ++ [e])).
   assert (Hlink : forall c, link_of (upd w s f) c = link_of w c) by (intros c; apply link_upd_same; reflexivity).
   assert (Hdead : forall c, dead (upd w s f) c <-> dead w c) by (intros c; apply dead_upd_same; reflexivity).
@@ -516,7 +557,7 @@ Proof.
       injection Eg as <-. specialize (h3 i a E). unfold f. clear - h3. ainv_tac.
     + rewrite get_upd_other in Eg by assumption. apply h3. exact Eg.
   - eapply tree_pw; [exact h4|apply pw_upd|].
-    intros j b Eb. unfold f. destruct (Nat.eqb s j); simpl; (split; [|split; reflexivity]);
+    intros j b Eb. unfold f. destruct (Nat.eqb s j); simpl; (split; [|split; [reflexivity|intros N; exact N]]);
       intros ks' E; exists ks'; (split; [exact E|apply incl_refl]).
   - intros s'. destruct (h5 s') as [q1 q2 q3 q4].
     destruct (Nat.eq_dec s s') as [<-|Hne].
@@ -536,20 +577,21 @@ Proof.
       * intros y Hy Ht. destruct (q3 y Hy Ht) as [D C]. split; [|exact C].
         destruct D as [D|D]; [left; apply Hdead; exact D|right; exact D].
       * exact q4.
+  - intros c. rewrite h6. symmetry. apply local_upd_same. reflexivity.
 Qed.
 
-Lemma inv4_notify links x w i a e :
-  Inv4 links x w -> get w i = Some a -> about e = i ->
+Lemma inv4_notify links locs x w i a e :
+  Inv4 links locs x w -> get w i = Some a -> about e = i ->
   (forall c, e = SStarted c -> post_start_ok c (trace_of w) = true /\ nonabout w i) ->
-  (is_terminal e = true -> x = Some i /\ noterm w i /\ (a_sup a <> None -> cls e (trace_of w) = true)) ->
-  Inv4 links x (notify_supervisor w i e).
+  (is_terminal e = true -> x = Some i /\ noterm w i /\ (a_sup a <> None -> cls locs e (trace_of w) = true)) ->
+  Inv4 links locs x (notify_supervisor w i e).
 Proof.
   intros H Eg Ea Hst Htm. unfold notify_supervisor. rewrite Eg.
   destruct (a_sup a) as [s|] eqn:Es; [|exact H].
   destruct (get w s) as [asup|] eqn:Egs; [|exact H]. destruct (a_ports asup); [|exact H].
   apply inv4_push; auto.
   - congruence.
-  - unfold link_of. rewrite Ea, Eg. apply (A1 _ _ _ _ (i_act _ _ _ H i a Eg)). exact Es.
+  - unfold link_of. rewrite Ea, Eg. apply (A1 _ _ _ _ (i_act _ _ _ _ H i a Eg)). exact Es.
   - intros c Ec. apply (Hst c Ec).
   - intros Ht. destruct (Htm Ht) as (Hx & _ & Hc). rewrite Ea. split; [right; exact Hx|apply Hc; discriminate].
   - intros y z Hy [<-|[]] Eab. destruct (is_terminal e) eqn:Ht.
@@ -560,14 +602,15 @@ Proof.
 Qed.
 
 (* (DE) the head of the supervision queue starts to be handled *)
-Lemma inv4_deq_enter links x w s a e t f :
-  Inv4 links x w -> get w s = Some a -> a_supq a = e :: t ->
+Lemma inv4_deq_enter links locs x w s a e t f :
+  Inv4 links locs x w -> get w s = Some a -> a_supq a = e :: t ->
   a_supq (f a) = t -> a_cfg (f a) = a_cfg a -> a_armed (f a) = a_armed a ->
   a_kids (f a) = a_kids a -> a_sup (f a) = a_sup a -> a_notify (f a) = a_notify a ->
+  a_status a <= a_status (f a) ->
   (AInv (trace_of w) x s a -> AInv (trace_of w) x s (f a)) ->
-  Inv4 links x (emit (upd w s f) (TEnter s (Sup e))).
+  Inv4 links locs x (emit (upd w s f) (TEnter s (Sup e))).
 Proof.
-  intros [h1 h2 h3 h4 h5] Eg Eq Fq Fc Fa Fk Fs Fn FA.
+  intros [h1 h2 h3 h4 h5 h6] Eg Eq Fq Fc Fa Fk Fs Fn Fst FA.
   set (w1 := upd w s f). set (ev := TEnter s (Sup e)).
   assert (Hlink : forall c, link_of (emit w1 ev) c = link_of w c).
   { intros c. unfold w1. change (link_of (upd w s f) c = link_of w c). apply link_upd_same.
@@ -612,7 +655,7 @@ Proof.
     + rewrite get_upd_other in Eb by assumption. apply h3. exact Eb.
   - change (TreeInv (upd w s f)). eapply tree_pw; [exact h4|apply pw_upd|].
     intros j b Eb. cbv beta. destruct (Nat.eqb_spec s j) as [<-|Hne].
-    + rewrite Eg in Eb. injection Eb as <-. rewrite Fk, Fs, Fn. split; [|auto].
+    + rewrite Eg in Eb. injection Eb as <-. rewrite Fk, Fs. split; [|split; [reflexivity|apply nl_pres; assumption]].
       intros ks' E. exists ks'. split; [exact E|apply incl_refl].
     + split; [|auto]. intros ks' E. exists ks'. split; [exact E|apply incl_refl].
   - intros s'. destruct (h5 s') as [q1 q2 q3 q4]. constructor; rewrite ?HK.
@@ -622,6 +665,8 @@ Proof.
       * destruct D as [D|D]; [left; apply Hdead; exact D|right; exact D].
       * rewrite Et. apply cls_stable; [discriminate|exact C].
     + exact q4.
+  - intros c. rewrite h6. symmetry. change (local_of (upd w s f) c = local_of w c). apply local_upd_same.
+    intros a0 E0. rewrite Eg in E0. injection E0 as <-. exact Fc.
 Qed.
 
 (* ------------------------------------------------------------------ *)
@@ -741,7 +786,7 @@ Proof. intros H N s y Hy. rewrite (K_sil _ _ _ H) in Hy. apply (N s y Hy). Qed.
 
 Definition killsafe (w : world) (y : nat) : Prop :=
   match get w y with
-  | Some a => (a_sup a = None /\ a_notify a = true) \/ a_sig_taken a = true \/ 5 <= a_status a
+  | Some a => (a_sup a = None /\ nl a) \/ a_sig_taken a = true \/ 5 <= a_status a
               \/ has_ev (ev_kill y) (trace_of w) = true
   | None => True
   end.
@@ -751,23 +796,23 @@ Proof.
   intros H. unfold killsafe. rewrite (trace_of_sil _ _ H). destruct H as [_ g]. specialize (g y).
   destruct (get w y) as [a|], (get w' y) as [a'|]; try tauto.
   destruct g. intros [[A B]|[A|[A|A]]].
-  - left. split; [|congruence]. destruct s_sup0 as [E|E]; congruence.
+  - left. split; [destruct s_sup0 as [E|E]; congruence|]. eapply nl_pres; eauto.
   - right; left. auto.
   - right; right; left. lia.
   - right; right; right. exact A.
 Qed.
 
-Lemma inv4_do_kill links x w y :
-  Inv4 links x w ->
+Lemma inv4_do_kill links locs x w y :
+  Inv4 links locs x w ->
   (forall a, get w y = Some a -> a_sig_taken a = false ->
-     has_ev (ev_kill y) (trace_of w) = true \/ (a_sup a = None /\ a_notify a = true)) ->
-  Inv4 links x (do_kill w y).
+     has_ev (ev_kill y) (trace_of w) = true \/ (a_sup a = None /\ nl a)) ->
+  Inv4 links locs x (do_kill w y).
 Proof.
   intros H Hs. unfold do_kill. destruct (get w y) as [a|] eqn:Eg; [|exact H].
   destruct (negb (created a) || a_sig_taken a) eqn:Ec; [exact H|].
   apply orb_false_iff in Ec as [_ Ht].
   eapply inv4_upd with (x := x); [exact H|exact Eg| | | | | |left; reflexivity]; simpl; auto.
-  - unfold LR. simpl. auto.
+  - unfold LR. simpl. auto 6.
   - intros ks' E. exists ks'. split; [exact E|apply incl_refl].
   - specialize (Hs a eq_refl Ht). ainv_tac.
 Qed.
@@ -819,13 +864,13 @@ Proof.
   intros H. unfold clr. destruct (a_sup a) as [q|] eqn:E; [destruct (Nat.eqb q p)|]; auto.
   ainv_tac.
   - intros s Hs; discriminate.
-  - intros Hp. destruct (a2 Hp) as [A _]. congruence.
+  - intros Hp. destruct (a2 Hp) as [A _]. split; [exact A|intros N; exfalso; apply N; reflexivity].
   - intros Ha Hs. destruct (a6 Ha Hs) as [A|[A _]]; [left; exact A|congruence].
 Qed.
 
-Lemma inv4_take_children links x w p :
-  Inv4 links x w ->
-  Inv4 links x (fst (take_children w p)) /\
+Lemma inv4_take_children links locs x w p :
+  Inv4 links locs x w ->
+  Inv4 links locs x (fst (take_children w p)) /\
   (forall c, In c (snd (take_children w p)) -> killsafe (fst (take_children w p)) c).
 Proof.
   intros H.
@@ -836,14 +881,15 @@ Proof.
   destruct (take_children_pw w p ap ks Eg Ek) as [Hpw Esnd]. rewrite Esnd.
   set (w' := fst (take_children w p)) in *.
   assert (Hfields : forall j a, a_supq (Ftc p ks j a) = a_supq a /\ a_cfg (Ftc p ks j a) = a_cfg a
-            /\ a_armed (Ftc p ks j a) = a_armed a /\ a_notify (Ftc p ks j a) = a_notify a).
+            /\ a_armed (Ftc p ks j a) = a_armed a /\ a_notify (Ftc p ks j a) = a_notify a
+            /\ a_status (Ftc p ks j a) = a_status a).
   { intros j a. unfold Ftc, clr. destruct (Nat.eqb p j); simpl;
       (destruct (existsb _ ks); simpl; [|auto]);
-      (destruct (a_sup a) as [q|]; [destruct (Nat.eqb q p)|]; simpl; auto). }
+      (destruct (a_sup a) as [q|]; [destruct (Nat.eqb q p)|]; simpl; auto 6). }
   split.
   - eapply inv4_pw with (x := x); [exact H|exact Hpw| | |left; reflexivity].
-    + intros j a Ea Aa. destruct (Hfields j a) as (F1 & F2 & F3 & F4). split.
-      * unfold LR. rewrite F1, F2, F3. auto.
+    + intros j a Ea Aa. destruct (Hfields j a) as (F1 & F2 & F3 & F4 & F5). split.
+      * unfold LR. rewrite F1, F2, F3, F5. auto 6.
       * unfold Ftc. assert (A1' : AInv (trace_of w) x j (if Nat.eqb p j then upd_kids a None else a)).
         { destruct (Nat.eqb p j); [|exact Aa]. clear - Aa. ainv_tac. }
         destruct (existsb _ ks); [apply AInv_clr|]; exact A1'.
@@ -856,27 +902,29 @@ Proof.
         - split; [exact Hne|]. destruct (existsb _ ks); [|exact Ek'].
           destruct (a_sup ap0) as [q|]; [destruct (Nat.eqb q p)|]; simpl in Ek'; exact Ek'. }
       destruct Hpp as [Hne Ek0].
-      destruct (i_tree _ _ _ H p' ap0 ks' c E0 Ek0 Hin) as (ac & Ec & Es & En).
+      destruct (i_tree _ _ _ _ H p' ap0 ks' c E0 Ek0 Hin) as (ac & Ec & Es & En).
       exists (Ftc p ks c ac). rewrite g, Ec. simpl. split; [reflexivity|].
-      destruct (Hfields c ac) as (_ & _ & _ & F4). rewrite F4. split; [|exact En].
+      destruct (Hfields c ac) as (_ & F2 & _ & F4 & F5).
+      split; [|apply (nl_pres ac); [exact F4|exact F2|rewrite F5; auto|exact En]].
       unfold Ftc. assert (E1 : a_sup (if Nat.eqb p c then upd_kids ac None else ac) = Some p')
         by (destruct (Nat.eqb p c); exact Es).
       destruct (existsb _ ks); [|exact E1]. rewrite clr_sup, E1.
       assert (Hb : Nat.eqb p' p = false) by (apply Nat.eqb_neq; congruence). now rewrite Hb.
   - intros c Hc. unfold killsafe. destruct Hpw as [_ g]. rewrite g.
     destruct (get w c) as [ac|] eqn:Ec; simpl; [|exact I].
-    destruct (i_tree _ _ _ H p ap ks c Eg Ek Hc) as (ac' & Ec' & Es & En).
+    destruct (i_tree _ _ _ _ H p ap ks c Eg Ek Hc) as (ac' & Ec' & Es & En).
     rewrite Ec in Ec'. injection Ec' as <-. left.
-    destruct (Hfields c ac) as (_ & _ & _ & F4). rewrite F4. split; [|exact En].
+    destruct (Hfields c ac) as (_ & F2 & _ & F4 & F5).
+    split; [|apply (nl_pres ac); [exact F4|exact F2|rewrite F5; auto|exact En]].
     unfold Ftc. apply existsb_eqb_in in Hc. rewrite Hc.
     assert (E1 : a_sup (if Nat.eqb p c then upd_kids ac None else ac) = Some p)
       by (destruct (Nat.eqb p c); exact Es).
     rewrite clr_sup, E1, Nat.eqb_refl. reflexivity.
 Qed.
 
-Lemma inv4_terminate_fuel links x fuel pending w :
-  Inv4 links x w -> (forall y, In y pending -> killsafe w y) ->
-  Inv4 links x (terminate_fuel fuel pending w).
+Lemma inv4_terminate_fuel links locs x fuel pending w :
+  Inv4 links locs x w -> (forall y, In y pending -> killsafe w y) ->
+  Inv4 links locs x (terminate_fuel fuel pending w).
 Proof.
   revert pending w. induction fuel as [|k IH]; intros pending w H Hs; simpl; [exact H|].
   destruct pending as [|y rest]; [exact H|].
@@ -886,14 +934,14 @@ Proof.
   assert (S1 : sil w w1).
   { unfold w1. destruct (get w y) as [ax|]; [|apply sil_refl].
     destruct (Nat.ltb _ 5); [apply sil_do_kill|apply sil_refl]. }
-  assert (H1 : Inv4 links x w1).
+  assert (H1 : Inv4 links locs x w1).
   { unfold w1. destruct (get w y) as [ax|] eqn:Ey; [|exact H].
     destruct (Nat.ltb (a_status ax) 5) eqn:El; [|exact H].
     apply inv4_do_kill; [exact H|]. intros a Ea Ht. rewrite Ey in Ea. injection Ea as <-.
     pose proof (Hs y (or_introl eq_refl)) as Ks. unfold killsafe in Ks. rewrite Ey in Ks.
     apply Nat.ltb_lt in El.
     destruct Ks as [A|[A|[A|A]]]; [right; exact A|congruence|lia|left; exact A]. }
-  destruct (inv4_take_children links x w1 y H1) as [H2 Hks].
+  destruct (inv4_take_children links locs x w1 y H1) as [H2 Hks].
   pose proof (sil_take_children w1 y) as S2.
   destruct (take_children w1 y) as [w2 ks]. simpl in H2, Hks, S2.
   apply IH; [exact H2|].
@@ -901,8 +949,8 @@ Proof.
   apply (killsafe_sil w1 w2 z S2). apply (killsafe_sil w w1 z S1). apply Hs. right. exact Hz.
 Qed.
 
-Lemma inv4_terminate links x w i :
-  Inv4 links x w -> killsafe w i -> Inv4 links x (terminate w i).
+Lemma inv4_terminate links locs x w i :
+  Inv4 links locs x w -> killsafe w i -> Inv4 links locs x (terminate w i).
 Proof.
   intros H Hs. apply inv4_terminate_fuel; [exact H|]. intros y [<-|[]]. exact Hs.
 Qed.
@@ -929,7 +977,7 @@ Proof. intros E. unfold upd. rewrite upd_nth_none by exact E. destruct w; reflex
 Definition kids_rm (i : nat) (z : actor) : actor :=
   match a_kids z with Some ks => upd_kids z (Some (remove_nat i ks)) | None => z end.
 
-Lemma inv4_unlink links x w i : Inv4 links x w -> Inv4 links x (unlink_from_supervisor w i).
+Lemma inv4_unlink links locs x w i : Inv4 links locs x w -> Inv4 links locs x (unlink_from_supervisor w i).
 Proof.
   intros H. unfold unlink_from_supervisor. destruct (get w i) as [a|] eqn:Eg; [|exact H].
   destruct (a_sup a) as [s|] eqn:Es; [|exact H].
@@ -937,11 +985,11 @@ Proof.
                             | Some ks => upd_kids x0 (Some (remove_nat i ks))
                             | None => x0 end) with (kids_rm i).
   set (w1 := upd w s (kids_rm i)).
-  assert (H1 : Inv4 links x w1).
+  assert (H1 : Inv4 links locs x w1).
   { destruct (get w s) as [asup|] eqn:Egs.
     - eapply inv4_upd with (x := x); [exact H|exact Egs| | | | | |left; reflexivity];
         unfold kids_rm; destruct (a_kids asup) as [ks|] eqn:Ek; simpl; auto using LR_refl.
-      + unfold LR; simpl; auto.
+      + unfold LR; simpl; auto 6.
       + intros ks' E. injection E as <-. exists ks. split; [reflexivity|].
         intros c Hc. apply (in_remove_nat c i ks Hc).
       + rewrite Ek. intros ks' E. discriminate.
@@ -960,7 +1008,7 @@ Proof.
     injection Ek1 as <-. intros Hin. apply in_remove_nat in Hin as [A _]. congruence. }
   eapply inv4_pw with (x := x); [exact H1|apply pw_upd| | |left; reflexivity].
   - intros j b Eb Ab. cbv beta. destruct (Nat.eqb i j); [|split; [apply LR_refl|exact Ab]].
-    split; [unfold LR; simpl; auto|]. clear - Ab. ainv_tac.
+    split; [unfold LR; simpl; auto 6|]. clear - Ab. ainv_tac.
     + intros s0 Hs0; discriminate.
     + intros Hp. destruct (a2 Hp). auto.
     + intros Ha Hs0. destruct (a6 Ha Hs0) as [A|[A B]]; auto.
@@ -970,7 +1018,7 @@ Proof.
       - rewrite get_upd_same, Eg1 in Ep. simpl in Ep. injection Ep as <-. eauto.
       - rewrite get_upd_other in Ep by assumption. eauto. }
     destruct Ep1 as (ap1 & Ep1 & Ek1).
-    destruct (i_tree _ _ _ H1 p' ap1 ks' c Ep1 Ek1 Hin) as (ac & Ec & Esc & Enc).
+    destruct (i_tree _ _ _ _ H1 p' ap1 ks' c Ep1 Ek1 Hin) as (ac & Ec & Esc & Enc).
     assert (Hci : c <> i).
     { intros ->. rewrite Eg1 in Ec. injection Ec as <-. rewrite Es1 in Esc. injection Esc as <-.
       apply (Hk1 ap1 ks' Ep1 Ek1 Hin). }
@@ -992,28 +1040,28 @@ Proof.
 Qed.
 
 (* the exit cleanup of actor i (in transit): at most one event, to the current supervisor *)
-Lemma inv4_cleanup links w i a ev :
-  Inv4 links (Some i) w -> get w i = Some a -> a_armed a = true -> noterm w i ->
+Lemma inv4_cleanup links locs w i a ev :
+  Inv4 links locs (Some i) w -> get w i = Some a -> a_armed a = true -> noterm w i ->
   (forall e, ev = Some e -> about e = i /\ is_terminal e = true
-                            /\ (cls e (trace_of w) = true \/ a_sup a = None)) ->
-  Inv4 links None (cleanup w i ev).
+                            /\ (cls locs e (trace_of w) = true \/ a_sup a = None)) ->
+  Inv4 links locs None (cleanup w i ev).
 Proof.
   intros H Eg Harm Hnt Hev. unfold cleanup. rewrite Eg, Harm. simpl.
   set (w1 := upd w i (fun a0 => upd_status a0 5)).
-  assert (H1 : Inv4 links (Some i) w1).
+  assert (H1 : Inv4 links locs (Some i) w1).
   { eapply inv4_upd with (x := Some i); [exact H|exact Eg| | | | | |left; reflexivity]; simpl; auto.
-    - unfold LR; simpl; auto.
+    - unfold LR; simpl; auto 6.
     - intros ks' E. exists ks'. split; [exact E|apply incl_refl].
     - ainv_tac. }
   assert (S1 : sil w w1) by (apply sil_upd; sr_tac).
   assert (Ks1 : killsafe w1 i).
   { unfold killsafe, w1. rewrite get_upd_same, Eg. simpl. right; right; left. lia. }
   set (w2 := terminate w1 i).
-  assert (H2 : Inv4 links (Some i) w2) by (apply inv4_terminate; assumption).
+  assert (H2 : Inv4 links locs (Some i) w2) by (apply inv4_terminate; assumption).
   assert (S2 : sil w w2) by (eapply sil_trans; [exact S1|apply sil_terminate]).
   destruct (sil_get w w2 i a S2 Eg) as (a2 & Eg2 & R2).
   set (w3 := match ev with Some e => notify_supervisor w2 i e | None => w2 end).
-  assert (H3 : Inv4 links (Some i) w3).
+  assert (H3 : Inv4 links locs (Some i) w3).
   { unfold w3. destruct ev as [e|]; [|exact H2].
     destruct (Hev e eq_refl) as (Ea & Ht & Hc).
     eapply inv4_notify; [exact H2|exact Eg2|exact Ea| |].
@@ -1022,14 +1070,14 @@ Proof.
       intros Hs. rewrite (trace_of_sil _ _ S2). destruct Hc as [Hc|Hc]; [exact Hc|].
       exfalso. apply Hs. destruct (s_sup _ _ R2) as [E|E]; congruence. }
   set (w4 := unlink_from_supervisor w3 i).
-  assert (H4 : Inv4 links (Some i) w4) by (apply inv4_unlink; exact H3).
+  assert (H4 : Inv4 links locs (Some i) w4) by (apply inv4_unlink; exact H3).
   assert (N4 : get w4 i <> None).
   { apply get_some_lt. unfold w4. rewrite nact_unlink.
     assert (nact w3 = nact w2) by (unfold w3; destruct ev; [apply nact_notify|reflexivity]).
     rewrite H0, (nact_sil _ _ S2). apply get_some_lt. congruence. }
   destruct (get w4 i) as [a4|] eqn:Eg4; [|congruence].
   eapply inv4_upd with (x := Some i); [exact H4|exact Eg4| | | | | |right; right; auto]; simpl; auto.
-  - unfold LR; simpl; auto. split; auto. split; auto. intros; discriminate.
+  - unfold LR; simpl. split; auto. split; auto. split; [intros; discriminate|auto].
   - intros ks' E. exists ks'. split; [exact E|apply incl_refl].
   - ainv_tac; intros; discriminate.
 Qed.
@@ -1057,19 +1105,19 @@ Proof.
     apply get_some_lt; congruence.
 Qed.
 
-Lemma inv4_finish links w i a e :
-  Inv4 links (Some i) w -> get w i = Some a -> a_armed a = true -> noterm w i ->
-  about e = i -> is_terminal e = true -> (cls e (trace_of w) = true \/ a_sup a = None) ->
-  Inv4 links None (finish w i e).
+Lemma inv4_finish links locs w i a e :
+  Inv4 links locs (Some i) w -> get w i = Some a -> a_armed a = true -> noterm w i ->
+  about e = i -> is_terminal e = true -> (cls locs e (trace_of w) = true \/ a_sup a = None) ->
+  Inv4 links locs None (finish w i e).
 Proof.
   intros H Eg Harm Hnt Ea Ht Hc. unfold finish.
   apply inv4_emit with (x := None); auto; try discriminate.
   eapply inv4_cleanup; eauto. intros e0 E0. injection E0 as <-. auto.
 Qed.
 
-Lemma inv4_start_failed links w i a :
-  Inv4 links (Some i) w -> get w i = Some a -> a_armed a = true -> noterm w i ->
-  Inv4 links None (start_failed w i).
+Lemma inv4_start_failed links locs w i a :
+  Inv4 links locs (Some i) w -> get w i = Some a -> a_armed a = true -> noterm w i ->
+  Inv4 links locs None (start_failed w i).
 Proof.
   intros H Eg Harm Hnt. unfold start_failed.
   apply inv4_emit with (x := None); auto; try discriminate.
@@ -1080,33 +1128,33 @@ Proof.
 Qed.
 
 (* the signal won: terminate the subtree, then the exit the phase prescribes *)
-Lemma inv4_killed_exit links w i a c :
-  Inv4 links (Some i) w -> get w i = Some a -> a_armed a = true -> noterm w i ->
+Lemma inv4_killed_exit links locs w i a c :
+  Inv4 links locs (Some i) w -> get w i = Some a -> a_armed a = true -> noterm w i ->
   a_sig_taken a = true ->
   (c <> Some PreStart ->
      ending_of i (trace_of w) EndNone = EndNone /\
      (has_ev (ev_kill i) (trace_of w) = true \/ a_sup a = None)) ->
-  Inv4 links None (killed_exit w i c).
+  Inv4 links locs None (killed_exit w i c).
 Proof.
   intros H Eg Harm Hnt Htk Hc. unfold killed_exit.
   set (w1 := terminate w i).
   assert (Ks : killsafe w i) by (unfold killsafe; rewrite Eg; auto).
-  assert (H1 : Inv4 links (Some i) w1) by (apply inv4_terminate; assumption).
+  assert (H1 : Inv4 links locs (Some i) w1) by (apply inv4_terminate; assumption).
   assert (S1 : sil w w1) by apply sil_terminate.
   destruct (sil_get w w1 i a S1 Eg) as (a1 & Eg1 & R1).
   assert (Harm1 : a_armed a1 = true) by (rewrite (s_armed _ _ R1); exact Harm).
   assert (Hnt1 : noterm w1 i) by (apply (noterm_sil w w1 i S1 Hnt)).
   assert (Hcls : c <> Some PreStart ->
-            cls (STerminated i false (Some R_KILLED)) (trace_of w1) = true \/ a_sup a1 = None).
+            cls locs (STerminated i false (Some R_KILLED)) (trace_of w1) = true \/ a_sup a1 = None).
   { intros Hn. destruct (Hc Hn) as [He [Hk|Hk]].
     - left. rewrite (trace_of_sil _ _ S1). simpl. rewrite He. exact Hk.
     - right. destruct (s_sup _ _ R1) as [E|E]; congruence. }
   assert (Hfin5 : c <> Some PreStart ->
-            Inv4 links None (finish (upd w1 i (fun a0 => upd_status a0 5)) i
+            Inv4 links locs None (finish (upd w1 i (fun a0 => upd_status a0 5)) i
                                     (STerminated i KILLED_IN_LOOP_HAS_STATE (Some R_KILLED)))).
   { intros Hn. eapply inv4_finish with (a := upd_status a1 5); auto.
     - eapply inv4_upd with (x := Some i); [exact H1|exact Eg1| | | | | |left; reflexivity]; simpl; auto.
-      + unfold LR; simpl; auto.
+      + unfold LR; simpl; auto 6.
       + intros ks' E. exists ks'. split; [exact E|apply incl_refl].
       + ainv_tac.
     - rewrite get_upd_same, Eg1. reflexivity.
@@ -1144,36 +1192,36 @@ Proof. intros Hp N s y Hy. rewrite K_emit_plain in Hy by assumption. apply (N s 
 
 Definition same_sup_fields (a a' : actor) : Prop :=
   a_cfg a' = a_cfg a /\ a_armed a' = a_armed a /\ a_kids a' = a_kids a
-  /\ a_sup a' = a_sup a /\ a_notify a' = a_notify a.
+  /\ a_sup a' = a_sup a /\ a_notify a' = a_notify a /\ a_status a <= a_status a'.
 
 Lemma kids_same_incl a a' :
   a_kids a' = a_kids a -> forall ks', a_kids a' = Some ks' -> exists ks, a_kids a = Some ks /\ incl ks' ks.
 Proof. intros E ks' E'. exists ks'. split; [congruence|apply incl_refl]. Qed.
 
-Lemma inv4_upd' links x x' w i f a :
-  Inv4 links x w -> get w i = Some a ->
+Lemma inv4_upd' links locs x x' w i f a :
+  Inv4 links locs x w -> get w i = Some a ->
   LR a (f a) -> a_kids (f a) = a_kids a -> a_sup (f a) = a_sup a -> a_notify (f a) = a_notify a ->
   (AInv (trace_of w) x i a -> AInv (trace_of w) x' i (f a)) ->
   (x' = x \/ x = None \/ (x = Some i /\ x' = None /\ a_armed (f a) = false)) ->
-  Inv4 links x' (upd w i f).
+  Inv4 links locs x' (upd w i f).
 Proof.
   intros H Eg HL Hk Hs Hn HA Ht. eapply inv4_upd; eauto. apply kids_same_incl. exact Hk.
 Qed.
 
 Lemma LR_sig a F p t : LR a (F a) -> LR a (upd_sig (F a) p t).
-Proof. intros (A & B & C). unfold LR. simpl. auto. Qed.
+Proof. intros (A & B & C & D). unfold LR. simpl. auto 6. Qed.
 Lemma LR_pc a F p : LR a (F a) -> LR a (upd_pc (F a) p).
-Proof. intros (A & B & C). unfold LR. simpl. auto. Qed.
+Proof. intros (A & B & C & D). unfold LR. simpl. auto 6. Qed.
 
 (* the pending signal is consumed and the actor leaves *)
-Lemma inv4_sig_exit links w i a F c :
-  Inv4 links None w -> get w i = Some a -> a_armed a = true -> a_sig a = true ->
+Lemma inv4_sig_exit links locs w i a F c :
+  Inv4 links locs None w -> get w i = Some a -> a_armed a = true -> a_sig a = true ->
   LR a (F a) -> same_sup_fields a (F a) ->
   (AInv (trace_of w) None i a -> AInv (trace_of w) None i (F a)) ->
-  Inv4 links None (killed_exit (upd w i (fun a0 => upd_sig (F a0) false true)) i c).
+  Inv4 links locs None (killed_exit (upd w i (fun a0 => upd_sig (F a0) false true)) i c).
 Proof.
-  intros H Eg Harm Hsig HL (Fc & Fa & Fk & Fs & Fn) HA.
-  pose proof (i_act _ _ _ H i a Eg) as Aa.
+  intros H Eg Harm Hsig HL (Fc & Fa & Fk & Fs & Fn & Fst) HA.
+  pose proof (i_act _ _ _ _ H i a Eg) as Aa.
   eapply inv4_killed_exit with (a := upd_sig (F a) false true).
   - eapply inv4_upd' with (x := None);
       [exact H|exact Eg|apply LR_sig; exact HL|exact Fk|exact Fs|exact Fn| |right; left; reflexivity].
@@ -1201,18 +1249,18 @@ Proof.
   - intros Hp. apply a8. destruct (a_pc a); try contradiction; destruct c; try contradiction; try discriminate; reflexivity.
 Qed.
 
-Lemma inv4_start_cb links w i a F c :
-  Inv4 links None w -> get w i = Some a -> a_armed a = true ->
+Lemma inv4_start_cb links locs w i a F c :
+  Inv4 links locs None w -> get w i = Some a -> a_armed a = true ->
   same_sup_fields a (F a) -> a_sig (F a) = a_sig a -> a_pc (F a) = a_pc a ->
   (match c with Sup e => a_supq a = e :: a_supq (F a) | _ => a_supq (F a) = a_supq a end) ->
   (AInv (trace_of w) None i a -> AInv (trace_of w) None i (F a)) ->
   start_from (a_pc a) c ->
   (c = PostStop -> backed i (a_reason (F a)) (trace_of w) = true) ->
-  Inv4 links None (start_cb (upd w i F) i c).
+  Inv4 links locs None (start_cb (upd w i F) i c).
 Proof.
   intros H Eg Harm Hsf Fsig Fpc Fq HA Hfrom Hb.
-  pose proof Hsf as (Fc & Fa & Fk & Fs & Fn).
-  pose proof (i_act _ _ _ H i a Eg) as Aa.
+  pose proof Hsf as (Fc & Fa & Fk & Fs & Fn & Fst).
+  pose proof (i_act _ _ _ _ H i a Eg) as Aa.
   assert (HL : LR a (F a)).
   { unfold LR. rewrite Fc, Fa. split; [|auto]. destruct c; auto. right. eauto. }
   unfold start_cb. rewrite get_upd_same, Eg. cbn [option_map]. rewrite Fsig.
@@ -1220,7 +1268,7 @@ Proof.
   - unfold consume_sig. rewrite upd_upd. eapply inv4_sig_exit; eauto.
   - unfold enter. rewrite get_upd_same, Eg. cbn [option_map].
     destruct (script_of (upd w i F) (F a) c) as [es f].
-    match goal with |- Inv4 _ _ (upd (emit _ _) i (fun a0 => upd_pc a0 (InCb c ?ES f false))) =>
+    match goal with |- Inv4 _ _ _ (upd (emit _ _) i (fun a0 => upd_pc a0 (InCb c ?ES f false))) =>
       set (es' := ES) end.
     rewrite upd_emit, upd_upd.
     assert (AG : AInv (trace_of w) None i (upd_pc (F a) (InCb c es' f false))).
@@ -1242,77 +1290,135 @@ Proof.
   destruct (_ || _); auto. destruct (a_kids b); auto. discriminate.
 Qed.
 
-Definition Flk (i s : nat) (ks : list nat) (j : nat) (a : actor) : actor :=
+(* [fin]: the Send start() links when pre_start has returned and marks the actor running in the
+   same step; the thread-local start() links first and nothing else changes *)
+Definition Flk (fin : bool) (i s : nat) (ks : list nat) (j : nat) (a : actor) : actor :=
   let a1 := if Nat.eqb s j then upd_kids a (Some (i :: remove_nat i ks)) else a in
-  if Nat.eqb i j then upd_pc (upd_notify (upd_sup a1 (Some s)) true) Spawned else a1.
+  if Nat.eqb i j then
+    (if fin then upd_pc (upd_notify (upd_sup a1 (Some s)) true) Spawned else upd_sup a1 (Some s))
+  else a1.
 
-Lemma Flk_fields i s ks j a :
-  a_supq (Flk i s ks j a) = a_supq a /\ a_cfg (Flk i s ks j a) = a_cfg a
-  /\ a_armed (Flk i s ks j a) = a_armed a
-  /\ a_sup (Flk i s ks j a) = (if Nat.eqb i j then Some s else a_sup a)
-  /\ a_notify (Flk i s ks j a) = (if Nat.eqb i j then true else a_notify a)
-  /\ a_kids (Flk i s ks j a) = (if Nat.eqb s j then Some (i :: remove_nat i ks) else a_kids a).
-Proof. unfold Flk. destruct (Nat.eqb s j), (Nat.eqb i j); simpl; repeat split; reflexivity. Qed.
+Lemma Flk_fields fin i s ks j a :
+  a_supq (Flk fin i s ks j a) = a_supq a /\ a_cfg (Flk fin i s ks j a) = a_cfg a
+  /\ a_armed (Flk fin i s ks j a) = a_armed a
+  /\ a_sup (Flk fin i s ks j a) = (if Nat.eqb i j then Some s else a_sup a)
+  /\ a_notify (Flk fin i s ks j a) = (if Nat.eqb i j && fin then true else a_notify a)
+  /\ a_kids (Flk fin i s ks j a) = (if Nat.eqb s j then Some (i :: remove_nat i ks) else a_kids a)
+  /\ a_status (Flk fin i s ks j a) = a_status a.
+Proof. unfold Flk. destruct (Nat.eqb s j), (Nat.eqb i j), fin; simpl; repeat split; reflexivity. Qed.
 
-Lemma inv4_link_ok links w i a s w1 p :
-  Inv4 links None w -> get w i = Some a -> c_link (a_cfg a) = Some s ->
-  a_pc a = InCb PreStart [] ROk p -> try_link w i s = (w1, true) ->
-  Inv4 links None (upd w1 i (fun a0 => upd_pc (upd_notify a0 true) Spawned)).
+(* the common part: linking i (so far without supervisor) under s *)
+Lemma inv4_link_gen links locs (fin : bool) w i a s asup ks :
+  Inv4 links locs None w -> get w i = Some a -> c_link (a_cfg a) = Some s ->
+  get w s = Some asup -> a_kids asup = Some ks ->
+  a_sup a = None -> a_notify a = false ->
+  (a_armed a = true -> a_sig a = true -> has_ev (ev_kill i) (trace_of w) = true) ->
+  (if fin return Prop then exists p, a_pc a = InCb PreStart [] ROk p
+   else c_local (a_cfg a) = true /\ 1 <= a_status a) ->
+  Inv4 links locs None
+    (upd (upd w s (fun a0 => upd_kids a0 (Some (i :: remove_nat i ks)))) i
+         (fun a0 => if fin then upd_pc (upd_notify (upd_sup a0 (Some s)) true) Spawned
+                    else upd_sup a0 (Some s))).
 Proof.
-  intros H Eg Hl Epc Etl. unfold try_link in Etl. rewrite Eg in Etl.
-  destruct (get w s) as [asup|] eqn:Egs; [|discriminate].
-  destruct (_ || _); [discriminate|]. destruct (a_kids asup) as [ks|] eqn:Eks; [|discriminate].
-  injection Etl as <-.
-  pose proof (i_act _ _ _ H i a Eg) as Aa.
-  assert (Hpre : a_sup a = None /\ a_notify a = false) by (apply (A2 _ _ _ _ Aa); rewrite Epc; reflexivity).
-  rewrite upd_upd.
-  assert (Hpw : pw (Flk i s ks) w
-            (upd (upd w s (fun a0 => upd_kids a0 (Some (i :: remove_nat i ks)))) i
-                 (fun a0 => upd_pc (upd_notify (upd_sup a0 (Some s)) true) Spawned))).
-  { eapply pw_ext; [|eapply pw_comp; apply pw_upd]. intros j b _. reflexivity. }
+  intros H Eg Hl Egs Eks Hsup Hnot Hsig Hfin.
+  pose proof (i_act _ _ _ _ H i a Eg) as Aa.
+  set (wL := upd (upd w s (fun a0 => upd_kids a0 (Some (i :: remove_nat i ks)))) i
+                 (fun a0 => if fin then upd_pc (upd_notify (upd_sup a0 (Some s)) true) Spawned
+                            else upd_sup a0 (Some s))).
+  assert (Hpw : pw (Flk fin i s ks) w wL).
+  { eapply pw_ext; [|eapply pw_comp; apply pw_upd]. intros j b _. unfold Flk. cbv beta.
+    destruct (Nat.eqb s j), (Nat.eqb i j), fin; reflexivity. }
   eapply inv4_pw with (x := None); [exact H|exact Hpw| | |left; reflexivity].
-  - intros j b Eb Ab. destruct (Flk_fields i s ks j b) as (F1 & F2 & F3 & F4 & F5 & F6). split.
-    + unfold LR. rewrite F1, F2, F3. auto.
+  - intros j b Eb Ab. destruct (Flk_fields fin i s ks j b) as (F1 & F2 & F3 & F4 & F5 & F6 & F7). split.
+    + unfold LR. rewrite F1, F2, F3, F7. auto 6.
     + unfold Flk. destruct (Nat.eqb_spec i j) as [<-|Hne].
       * rewrite Eg in Eb. injection Eb as <-.
         assert (A1' : AInv (trace_of w) None i (if Nat.eqb s i then upd_kids a (Some (i :: remove_nat i ks)) else a)).
         { destruct (Nat.eqb s i); [|exact Aa]. clear - Aa. ainv_tac. }
         set (a1 := if Nat.eqb s i then _ else a) in *.
-        assert (E1 : a_cfg a1 = a_cfg a /\ a_pc a1 = a_pc a /\ a_notify a1 = a_notify a /\ a_sup a1 = a_sup a)
-          by (unfold a1; destruct (Nat.eqb s i); simpl; auto).
-        destruct E1 as (C1 & C2 & C3 & C4). clear - A1' C1 C2 C3 C4 Hl Epc Hpre.
-        destruct A1' as [a1' a2 a3 a4 a5 a6 a7 a8]. constructor; simpl; auto.
-        -- intros s0 E. injection E as <-. congruence.
-        -- intros; discriminate.
-        -- intros; discriminate.
-        -- intros Ha Hs. destruct (a6 Ha Hs) as [A|[_ A]]; [left; exact A|]. destruct Hpre. congruence.
-        -- intros _. apply a8. rewrite C2, Epc. reflexivity.
+        assert (E1 : a_cfg a1 = a_cfg a /\ a_pc a1 = a_pc a /\ a_notify a1 = a_notify a /\ a_sup a1 = a_sup a
+                     /\ a_status a1 = a_status a /\ a_armed a1 = a_armed a /\ a_sig a1 = a_sig a)
+          by (unfold a1; destruct (Nat.eqb s i); simpl; auto 8).
+        destruct E1 as (C1 & C2 & C3 & C4 & C5 & C6 & C7).
+        clear - A1' C1 C2 C3 C4 C5 C6 C7 Hl Hsup Hnot Hsig Hfin.
+        destruct A1' as [a1' a2 a3 a4 a5 a6 a7 a8]. destruct fin.
+        -- destruct Hfin as (p & Epc). constructor; simpl; auto.
+           ++ intros s0 E. injection E as <-. congruence.
+           ++ intros; discriminate.
+           ++ intros; discriminate.
+           ++ intros Ha Hs. left. apply Hsig; congruence.
+           ++ intros _. apply a8. rewrite C2, Epc. reflexivity.
+        -- destruct Hfin as (Hloc & Hst). constructor; simpl; auto.
+           ++ intros s0 E. injection E as <-. congruence.
+           ++ intros Hp. split; [rewrite C3; exact Hnot|]. intros _. split; [congruence|lia].
+           ++ intros Ha Hs. left. apply Hsig; congruence.
       * destruct (Nat.eqb s j); [|exact Ab]. clear - Ab. ainv_tac.
   - intros p' ap' ks' c Ep Ek' Hin. destruct Hpw as [_ g].
     rewrite g in Ep. destruct (get w p') as [ap0|] eqn:E0; simpl in Ep; [|discriminate]. injection Ep as <-.
-    destruct (Flk_fields i s ks p' ap0) as (_ & _ & _ & _ & _ & F6). rewrite F6 in Ek'.
+    destruct (Flk_fields fin i s ks p' ap0) as (_ & _ & _ & _ & _ & F6 & _). rewrite F6 in Ek'.
     assert (Hgc : forall ac, get w c = Some ac -> c <> i ->
-              exists ac', get (upd (upd w s (fun a0 => upd_kids a0 (Some (i :: remove_nat i ks)))) i
-                 (fun a0 => upd_pc (upd_notify (upd_sup a0 (Some s)) true) Spawned)) c = Some ac'
-                 /\ a_sup ac' = a_sup ac /\ a_notify ac' = a_notify ac).
-    { intros ac Ec Hci. exists (Flk i s ks c ac). rewrite g, Ec. split; [reflexivity|].
-      destruct (Flk_fields i s ks c ac) as (_ & _ & _ & F4 & F5 & _).
-      assert (Hb : Nat.eqb i c = false) by (apply Nat.eqb_neq; congruence). rewrite F4, F5, Hb. auto. }
-    assert (Hgi : exists ai', get (upd (upd w s (fun a0 => upd_kids a0 (Some (i :: remove_nat i ks)))) i
-                 (fun a0 => upd_pc (upd_notify (upd_sup a0 (Some s)) true) Spawned)) i = Some ai'
-                 /\ a_sup ai' = Some s /\ a_notify ai' = true).
-    { exists (Flk i s ks i a). rewrite g, Eg. split; [reflexivity|].
-      destruct (Flk_fields i s ks i a) as (_ & _ & _ & F4 & F5 & _). rewrite F4, F5, Nat.eqb_refl. auto. }
+              exists ac', get wL c = Some ac' /\ a_sup ac' = a_sup ac /\ (nl ac -> nl ac')).
+    { intros ac Ec Hci. exists (Flk fin i s ks c ac). rewrite g, Ec. split; [reflexivity|].
+      destruct (Flk_fields fin i s ks c ac) as (_ & F2 & _ & F4 & F5 & _ & F7).
+      assert (Hb : Nat.eqb i c = false) by (apply Nat.eqb_neq; congruence). rewrite Hb in F4, F5. simpl in F5.
+      split; [exact F4|]. apply nl_pres; [exact F5|exact F2|rewrite F7; auto]. }
+    assert (Hgi : exists ai', get wL i = Some ai' /\ a_sup ai' = Some s /\ nl ai').
+    { exists (Flk fin i s ks i a). rewrite g, Eg. split; [reflexivity|].
+      destruct (Flk_fields fin i s ks i a) as (_ & F2 & _ & F4 & F5 & _ & F7). rewrite Nat.eqb_refl in F4, F5.
+      split; [exact F4|]. unfold nl. rewrite F5, F2, F7. simpl. destruct fin; [left; reflexivity|right; exact Hfin]. }
     destruct (Nat.eqb_spec s p') as [<-|Hne].
     + injection Ek' as <-. destruct Hin as [<-|Hin].
       * destruct Hgi as (ai' & A & B & C). eauto.
       * apply in_remove_nat in Hin as [Hci Hin].
-        destruct (i_tree _ _ _ H s asup ks c Egs Eks Hin) as (ac & Ec & Es & En).
-        destruct (Hgc ac Ec Hci) as (ac' & A & B & C). exists ac'. rewrite B, C. auto.
-    + destruct (i_tree _ _ _ H p' ap0 ks' c E0 Ek' Hin) as (ac & Ec & Es & En).
+        rewrite Egs in E0. injection E0 as <-.
+        destruct (i_tree _ _ _ _ H s asup ks c Egs Eks Hin) as (ac & Ec & Es & En).
+        destruct (Hgc ac Ec Hci) as (ac' & A & B & C). exists ac'. rewrite B. auto.
+    + destruct (i_tree _ _ _ _ H p' ap0 ks' c E0 Ek' Hin) as (ac & Ec & Es & En).
       assert (Hci : c <> i).
-      { intros ->. rewrite Eg in Ec. injection Ec as <-. destruct Hpre. congruence. }
-      destruct (Hgc ac Ec Hci) as (ac' & A & B & C). exists ac'. rewrite B, C. auto.
+      { intros ->. rewrite Eg in Ec. injection Ec as <-. congruence. }
+      destruct (Hgc ac Ec Hci) as (ac' & A & B & C). exists ac'. rewrite B. auto.
+Qed.
+
+Lemma A2_send tr x i a :
+  AInv tr x i a -> pre_pc (a_pc a) = true -> c_local (a_cfg a) = false ->
+  a_sup a = None /\ a_notify a = false.
+Proof.
+  intros Aa Hp Hl. destruct (A2 _ _ _ _ Aa Hp) as [A B]. split; [|exact A].
+  destruct (a_sup a) as [q|]; [|reflexivity]. destruct B as [B _]; [discriminate|congruence].
+Qed.
+
+Lemma inv4_link_ok links locs w i a s w1 p :
+  Inv4 links locs None w -> get w i = Some a -> c_link (a_cfg a) = Some s -> c_local (a_cfg a) = false ->
+  a_pc a = InCb PreStart [] ROk p -> a_armed a = true -> try_link w i s = (w1, true) ->
+  Inv4 links locs None (upd w1 i (fun a0 => upd_pc (upd_notify a0 true) Spawned)).
+Proof.
+  intros H Eg Hl Hloc Epc Harm Etl. unfold try_link in Etl. rewrite Eg in Etl.
+  destruct (get w s) as [asup|] eqn:Egs; [|discriminate].
+  destruct (_ || _); [discriminate|]. destruct (a_kids asup) as [ks|] eqn:Eks; [|discriminate].
+  injection Etl as <-.
+  pose proof (i_act _ _ _ _ H i a Eg) as Aa.
+  assert (Hpre : a_sup a = None /\ a_notify a = false)
+    by (apply (A2_send _ _ _ _ Aa); [rewrite Epc; reflexivity|exact Hloc]).
+  destruct Hpre as [Hs0 Hn0].
+  rewrite upd_upd.
+  apply (inv4_link_gen links locs true w i a s asup ks); auto.
+  - intros Ha Hsig. destruct (A6 _ _ _ _ Aa Ha Hsig) as [A|[_ [A|[A _]]]]; [exact A|congruence|congruence].
+  - eauto.
+Qed.
+
+(* the thread-local start(): status Starting has just been set, link before pre_start *)
+Lemma inv4_link_local links locs w i a s w1 :
+  Inv4 links locs None w -> get w i = Some a -> c_link (a_cfg a) = Some s -> c_local (a_cfg a) = true ->
+  1 <= a_status a -> a_sup a = None -> a_notify a = false ->
+  (a_armed a = true -> a_sig a = true -> has_ev (ev_kill i) (trace_of w) = true) ->
+  try_link w i s = (w1, true) ->
+  Inv4 links locs None w1.
+Proof.
+  intros H Eg Hl Hloc Hst Hs0 Hn0 Hsig Etl. unfold try_link in Etl. rewrite Eg in Etl.
+  destruct (get w s) as [asup|] eqn:Egs; [|discriminate].
+  destruct (_ || _); [discriminate|]. destruct (a_kids asup) as [ks|] eqn:Eks; [|discriminate].
+  injection Etl as <-.
+  apply (inv4_link_gen links locs false w i a s asup ks); auto.
 Qed.
 
 (* ------------------------------------------------------------------ *)
@@ -1325,55 +1431,41 @@ Proof.
   apply andb_true_iff in H as [H1 H2]. rewrite H1, H2. simpl. apply orb_true_r.
 Qed.
 
-Lemma tree_pw' F w w' :
-  TreeInv w -> pw F w w' ->
-  (forall j a, get w j = Some a ->
-     (forall ks', a_kids (F j a) = Some ks' -> exists ks, a_kids a = Some ks /\ incl ks' ks)
-     /\ a_sup (F j a) = a_sup a /\ (a_notify a = true -> a_notify (F j a) = true)) ->
-  TreeInv w'.
-Proof.
-  intros HT [_ g] HF p ap' ks' c Ep Ek Hin. rewrite g in Ep.
-  destruct (get w p) as [ap|] eqn:E; simpl in Ep; [|discriminate]. injection Ep as <-.
-  destruct (HF p ap E) as (A & _ & _). destruct (A ks' Ek) as (ks & Ek0 & Hincl).
-  destruct (HT p ap ks c E Ek0 (Hincl c Hin)) as (ac & Ec & Es & En).
-  exists (F c ac). rewrite g, Ec. simpl. destruct (HF c ac Ec) as (_ & -> & Hn). auto.
-Qed.
-
 Lemma nonabout_upd w i f a j :
   get w i = Some a -> LR a (f a) -> nonabout w j -> nonabout (upd w i f) j.
 Proof. intros Eg HL N s y Hy. apply (N s y). eapply K_upd_incl; eauto. Qed.
 
 Lemma LR_status a v : LR a (upd_status a v).
-Proof. unfold LR. simpl. auto. Qed.
+Proof. unfold LR. simpl. auto 6. Qed.
 
-Lemma inv4_after_cb links w i a c f p :
-  Inv4 links None w -> get w i = Some a -> a_pc a = InCb c [] f p -> a_armed a = true ->
-  Inv4 links None (after_cb (emit w (TExit i c f)) i c f).
+Lemma inv4_after_cb links locs w i a c f p :
+  Inv4 links locs None w -> get w i = Some a -> a_pc a = InCb c [] f p -> a_armed a = true ->
+  Inv4 links locs None (after_cb (emit w (TExit i c f)) i c f).
 Proof.
   intros H Eg Epc Harm.
-  pose proof (i_act _ _ _ H i a Eg) as Aa.
+  pose proof (i_act _ _ _ _ H i a Eg) as Aa.
   assert (Nt : noterm w i) by (eapply noterm_alive; eauto; discriminate).
   set (e := TExit i c f). set (wx := emit w e).
   assert (Egx : get wx i = Some a) by exact Eg.
   assert (Ntx : noterm wx i) by (apply noterm_emit; [reflexivity|exact Nt]).
   assert (Etx : trace_of wx = trace_of w ++ [e]) by reflexivity.
-  assert (HXd : subj_end e = Some i -> Inv4 links (Some i) wx).
+  assert (HXd : subj_end e = Some i -> Inv4 links locs (Some i) wx).
   { intros Es. apply inv4_emit with (x := None); auto.
     - intros j Ej. rewrite Es in Ej. injection Ej as <-. auto.
     - intros j b Ee. unfold e in Ee. injection Ee as -> -> ->. discriminate Es. }
-  assert (HXp : forall x', subj_end e = None -> (c = PostStart -> f <> ROk) -> Inv4 links x' wx).
+  assert (HXp : forall x', subj_end e = None -> (c = PostStart -> f <> ROk) -> Inv4 links locs x' wx).
   { intros x' Es Hn. apply inv4_emit with (x := None); auto.
     - intros j Ej. rewrite Es in Ej. discriminate.
     - intros j b Ee. unfold e in Ee. injection Ee as -> -> ->. exfalso. apply Hn; reflexivity. }
   assert (Hcf : forall t, (f = RErr t \/ f = RPanic t) -> c <> PreStart ->
-                cls (SFailed i t) (trace_of wx) = true /\ subj_end e = Some i).
+                cls locs (SFailed i t) (trace_of wx) = true /\ subj_end e = Some i).
   { intros t Hf Hc. rewrite Etx. simpl. rewrite ending_of_app. unfold e. simpl. rewrite Nat.eqb_refl.
     destruct Hf as [-> | ->]; destruct c; try congruence; simpl; rewrite Nat.eqb_refl; auto. }
   assert (Dfin : forall t, (f = RErr t \/ f = RPanic t) -> c <> PreStart ->
-                 Inv4 links None (finish wx i (SFailed i t))).
+                 Inv4 links locs None (finish wx i (SFailed i t))).
   { intros t Hf Hc. destruct (Hcf t Hf Hc) as [C S]. eapply inv4_finish; eauto. }
   assert (Dfin5 : forall t, (f = RErr t \/ f = RPanic t) -> c <> PreStart ->
-                 Inv4 links None (finish (upd wx i (fun a0 => upd_status a0 5)) i (SFailed i t))).
+                 Inv4 links locs None (finish (upd wx i (fun a0 => upd_status a0 5)) i (SFailed i t))).
   { intros t Hf Hc. destruct (Hcf t Hf Hc) as [C S].
     eapply inv4_finish with (a := upd_status a 5); auto.
     - eapply inv4_upd' with (x := Some i);
@@ -1382,7 +1474,7 @@ Proof.
     - rewrite get_upd_same, Egx. reflexivity.
     - apply (noterm_upd wx i _ a i Egx (LR_status a 5) Ntx). }
   assert (Didle : subj_end e = None -> c <> PostStart -> c <> PreStart -> c <> PostStop ->
-                  Inv4 links None (upd wx i (fun a0 => upd_pc a0 Idle))).
+                  Inv4 links locs None (upd wx i (fun a0 => upd_pc a0 Idle))).
   { intros Es Hc1 Hc2 Hc3.
     eapply inv4_upd' with (x := None);
       [apply HXp; [exact Es|intros; contradiction]|exact Egx|apply (LR_pc a (fun z => z)); apply LR_refl
@@ -1393,54 +1485,68 @@ Proof.
     try (apply Dfin; [eauto|discriminate]); try (apply Dfin5; [eauto|discriminate]);
     try (apply Didle; [reflexivity|discriminate|discriminate|discriminate]).
   - (* pre_start Ok *)
-    destruct (c_link (a_cfg a)) as [s|] eqn:El.
-    + destruct (try_link wx i s) as [w1 ok] eqn:Etl. destruct ok.
-      * apply inv4_emit with (x := None); auto; try discriminate.
-        eapply inv4_link_ok with (w := wx); eauto. apply HXp; [reflexivity|discriminate].
-      * assert (E1 : w1 = wx) by (rewrite <- (try_link_false wx i s); rewrite Etl; reflexivity).
-        rewrite E1. eapply inv4_start_failed; eauto. apply HXp; [reflexivity|discriminate].
-    + apply inv4_emit with (x := None); auto; try discriminate.
-      assert (HP : Inv4 links None wx) by (apply HXp; [reflexivity|discriminate]).
+    assert (HP : Inv4 links locs None wx) by (apply HXp; [reflexivity|discriminate]).
+    (* marking the actor running, no (further) link: unlinked, or thread-local (linked before) *)
+    assert (Hrun : (c_local (a_cfg a) = true \/ a_sup a = None) ->
+              Inv4 links locs None (upd wx i (fun a0 => upd_pc (upd_notify a0 true) Spawned))).
+    { intros Hlk.
       eapply inv4_pw with (x := None); [exact HP|apply pw_upd| | |left; reflexivity].
       * intros j b Eb Ab. cbv beta. destruct (Nat.eqb_spec i j) as [<-|Hne]; [|split; [apply LR_refl|exact Ab]].
-        rewrite Egx in Eb. injection Eb as <-. split; [unfold LR; simpl; auto|].
-        assert (Hpre : a_sup a = None /\ a_notify a = false)
-          by (apply (A2 _ _ _ _ Aa); rewrite Epc; reflexivity).
+        rewrite Egx in Eb. injection Eb as <-. split; [unfold LR; simpl; auto 6|].
+        pose proof (A2 _ _ _ _ Aa) as a2'. rewrite Epc in a2'. specialize (a2' eq_refl).
         pose proof (A8 _ _ _ _ Ab) as a8'. rewrite Epc in a8'. specialize (a8' eq_refl).
-        clear - Ab Hpre a8'. ainv_tac; try (intros; discriminate).
-        intros Ha Hs. destruct (a6 Ha Hs) as [A|[_ A]]; [left; exact A|]. destruct Hpre. congruence.
-      * eapply tree_pw'; [exact (i_tree _ _ _ HP)|apply pw_upd|].
-        intros j b Eb. cbv beta. destruct (Nat.eqb i j); simpl; (split; [|auto]);
-          intros ks' E; exists ks'; (split; [exact E|apply incl_refl]).
+        clear - Ab a2' a8' Hlk. destruct Ab as [a1 a2 a3 a4 a5 a6 a7 a8]. constructor; simpl; auto;
+          try (intros; discriminate).
+        intros Ha Hs. destruct (a6 Ha Hs) as [A|[A B]]; [left; exact A|right; split; [exact A|]].
+        unfold nl. simpl. left. reflexivity.
+      * eapply tree_pw; [exact (i_tree _ _ _ _ HP)|apply pw_upd|].
+        intros j b Eb. cbv beta. destruct (Nat.eqb i j); simpl;
+          (split; [|split; [reflexivity|]]);
+          try (intros ks' E; exists ks'; (split; [exact E|apply incl_refl]));
+          try (intros N; exact N).
+        intros N. unfold nl. simpl. left. reflexivity. }
+    destruct (c_local (a_cfg a)) eqn:Eloc.
+    + apply inv4_emit with (x := None); auto; try discriminate.
+    + destruct (c_link (a_cfg a)) as [s|] eqn:El.
+      * destruct (try_link wx i s) as [w1 ok] eqn:Etl. destruct ok.
+        -- apply inv4_emit with (x := None); auto; try discriminate.
+           eapply inv4_link_ok with (w := wx); eauto.
+        -- assert (E1 : w1 = wx) by (rewrite <- (try_link_false wx i s); rewrite Etl; reflexivity).
+           rewrite E1. eapply inv4_start_failed; eauto. apply HXp; [reflexivity|discriminate].
+      * apply inv4_emit with (x := None); auto; try discriminate.
+        apply Hrun. right. apply (A2_send _ _ _ _ Aa); [rewrite Epc; reflexivity|exact Eloc].
   - (* pre_start failed *)
     eapply inv4_start_failed; eauto.
   - eapply inv4_start_failed; eauto.
   - (* post_start Ok: Idle, then ActorStarted to the supervisor *)
     set (g := fun a0 => upd_pc (upd_status a0 2) Idle).
-    change (Inv4 links None (notify_supervisor (emit (upd w i g) e) i (SStarted i))).
-    assert (H1 : Inv4 links None (upd w i g)).
+    change (Inv4 links locs None (notify_supervisor (emit (upd w i g) e) i (SStarted i))).
+    assert (H1 : Inv4 links locs None (upd w i g)).
     { eapply inv4_upd' with (x := None);
-        [exact H|exact Eg|unfold LR, g; simpl; auto|reflexivity|reflexivity|reflexivity| |left; reflexivity].
+        [exact H|exact Eg|unfold LR, g; simpl; auto 6|reflexivity|reflexivity|reflexivity| |left; reflexivity].
       clear. unfold g. ainv_tac; intros; discriminate. }
-    assert (H2 : Inv4 links None (emit (upd w i g) e)).
+    assert (H2 : Inv4 links locs None (emit (upd w i g) e)).
     { apply inv4_emit with (x := None); auto.
       - intros j Ej. discriminate.
       - intros j b Ee Eb. injection Ee as <-. rewrite get_upd_same, Eg in Eb. injection Eb as <-. reflexivity. }
     assert (Na : nonabout w i).
     { intros s y Hy Ey. destruct (is_terminal y) eqn:Ht; [exact (Nt s y Hy Ht Ey)|].
       destruct y as [c0| |]; try discriminate. simpl in Ey. subst c0.
-      pose proof (Q2 _ _ _ (i_K _ _ _ H s) i Hy) as P.
+      pose proof (Q2 _ _ _ _ (i_K _ _ _ _ H s) i Hy) as P.
       rewrite (A8 _ _ _ _ Aa) in P; [discriminate|rewrite Epc; reflexivity]. }
     eapply inv4_notify with (a := g a); [exact H2|rewrite get_emit, get_upd_same, Eg; reflexivity|reflexivity| |].
     + intros c0 Ec. injection Ec as <-. split.
       * change (trace_of (emit (upd w i g) e)) with (trace_of w ++ [e]).
         rewrite post_start_ok_app. unfold e. rewrite Nat.eqb_refl. apply orb_true_r.
       * apply nonabout_emit; [reflexivity|].
-        apply (nonabout_upd w i g a i Eg); [unfold LR, g; simpl; auto|exact Na].
+        apply (nonabout_upd w i g a i Eg); [unfold LR, g; simpl; auto 6|exact Na].
     + intros; discriminate.
   - (* post_stop Ok *)
     eapply inv4_finish; eauto.
     left. rewrite Etx. simpl. rewrite ending_of_app. unfold e. simpl. rewrite Nat.eqb_refl.
+    assert (El : nth i locs false = c_local (a_cfg a)).
+    { rewrite (i_locs _ _ _ _ H i). unfold local_of. rewrite Eg. reflexivity. }
+    rewrite El, eqb_reflx. simpl.
     apply backed_app. apply (A5 _ _ _ _ Aa _ _ _ Epc).
 Qed.
 
@@ -1454,34 +1560,34 @@ Proof.
   destruct (a_armed a) eqn:E; auto.
 Qed.
 
-Lemma inv4_retag links w i : Inv4 links None w -> Inv4 links (Some i) w.
+Lemma inv4_retag links locs w i : Inv4 links locs None w -> Inv4 links locs (Some i) w.
 Proof.
   intros H. eapply inv4_pw with (x := None) (F := fun _ a => a);
-    [exact H|apply pw_refl| |exact (i_tree _ _ _ H)|right; left; reflexivity].
+    [exact H|apply pw_refl| |exact (i_tree _ _ _ _ H)|right; left; reflexivity].
   intros j b Eb Ab. split; [apply LR_refl|]. destruct Ab. constructor; auto.
   intros Ha _. apply A15; [exact Ha|discriminate].
 Qed.
 
-Lemma inv4_emit_plain links x w e :
-  Inv4 links x w -> is_sup_enter e = false -> subj_end e = None ->
-  (forall j, e <> TExit j PostStart ROk) -> Inv4 links x (emit w e).
+Lemma inv4_emit_plain links locs x w e :
+  Inv4 links locs x w -> is_sup_enter e = false -> subj_end e = None ->
+  (forall j, e <> TExit j PostStart ROk) -> Inv4 links locs x (emit w e).
 Proof.
   intros H Hp Hs Hn. apply inv4_emit with (x := x); auto.
   - intros j E. rewrite Hs in E. discriminate.
   - intros j b E. exfalso. apply (Hn j E).
 Qed.
 
-Lemma inv4_req_send links w i m : Inv4 links None w -> Inv4 links None (req_send w i m).
+Lemma inv4_req_send links locs w i m : Inv4 links locs None w -> Inv4 links locs None (req_send w i m).
 Proof.
   intros H. unfold req_send. destruct (is_created w i); [|exact H].
   unfold do_send. destruct (get w i) as [a|] eqn:Eg; [|exact H].
   destruct (can_send a); apply inv4_emit_plain; try reflexivity; try (intros; discriminate); [|exact H].
   eapply inv4_upd' with (x := None);
-    [exact H|exact Eg|unfold LR; simpl; auto|reflexivity|reflexivity|reflexivity| |left; reflexivity].
+    [exact H|exact Eg|unfold LR; simpl; auto 6|reflexivity|reflexivity|reflexivity| |left; reflexivity].
   ainv_tac. intros Hm. apply a4. apply in_marker_app in Hm. exact Hm.
 Qed.
 
-Lemma inv4_req_kill links w i : Inv4 links None w -> Inv4 links None (req_kill w i).
+Lemma inv4_req_kill links locs w i : Inv4 links locs None w -> Inv4 links locs None (req_kill w i).
 Proof.
   intros H. unfold req_kill. destruct (is_created w i); [|exact H].
   apply inv4_do_kill.
@@ -1489,14 +1595,14 @@ Proof.
   - intros a _ _. left. rewrite trace_of_emit, has_ev_app. simpl. rewrite Nat.eqb_refl. apply orb_true_r.
 Qed.
 
-Lemma inv4_req_stop links w i r : Inv4 links None w -> Inv4 links None (req_stop w i r).
+Lemma inv4_req_stop links locs w i r : Inv4 links locs None w -> Inv4 links locs None (req_stop w i r).
 Proof.
   intros H. unfold req_stop. destruct (is_created w i); [|exact H].
-  assert (H1 : Inv4 links None (emit w (TStopReq i r))) by (apply inv4_emit_plain; auto; intros; discriminate).
+  assert (H1 : Inv4 links locs None (emit w (TStopReq i r))) by (apply inv4_emit_plain; auto; intros; discriminate).
   unfold do_stop. destruct (get (emit w (TStopReq i r)) i) as [a|] eqn:Eg; [|exact H1].
   destruct (_ || _); [exact H1|].
   eapply inv4_upd' with (x := None);
-    [exact H1|exact Eg|unfold LR; simpl; auto|reflexivity|reflexivity|reflexivity| |left; reflexivity].
+    [exact H1|exact Eg|unfold LR; simpl; auto 6|reflexivity|reflexivity|reflexivity| |left; reflexivity].
   ainv_tac. intros r0 E. destruct (a_ports a); [|discriminate]. injection E as <-.
   rewrite trace_of_emit, has_ev_app. simpl. rewrite Nat.eqb_refl, onat_eqb_refl. apply orb_true_r.
 Qed.
@@ -1510,27 +1616,28 @@ Qed.
 
 Lemma drain_upd_sup a :
   a_supq (drain_upd a) = a_supq a /\ a_cfg (drain_upd a) = a_cfg a /\ a_armed (drain_upd a) = a_armed a
-  /\ a_kids (drain_upd a) = a_kids a /\ a_sup (drain_upd a) = a_sup a /\ a_notify (drain_upd a) = a_notify a.
+  /\ a_kids (drain_upd a) = a_kids a /\ a_sup (drain_upd a) = a_sup a /\ a_notify (drain_upd a) = a_notify a
+  /\ a_status a <= a_status (drain_upd a).
 Proof.
   unfold drain_upd. destruct (Nat.ltb (a_status a) 5); simpl;
-    (destruct (a_marker a); simpl; [|destruct (a_ports a); simpl]); repeat split; reflexivity.
+    (destruct (a_marker a); simpl; [|destruct (a_ports a); simpl]); repeat split; auto; reflexivity.
 Qed.
 
-Lemma inv4_req_drain links w i : Inv4 links None w -> Inv4 links None (req_drain w i).
+Lemma inv4_req_drain links locs w i : Inv4 links locs None w -> Inv4 links locs None (req_drain w i).
 Proof.
   intros H. unfold req_drain. destruct (is_created w i); [|exact H].
-  assert (H1 : Inv4 links None (emit w (TDrainReq i))) by (apply inv4_emit_plain; auto; intros; discriminate).
+  assert (H1 : Inv4 links locs None (emit w (TDrainReq i))) by (apply inv4_emit_plain; auto; intros; discriminate).
   unfold do_drain. destruct (get (emit w (TDrainReq i)) i) as [a|] eqn:Eg; [|exact H1].
   destruct (negb (created a)); [exact H1|].
-  change (Inv4 links None (upd (emit w (TDrainReq i)) i drain_upd)).
-  destruct (drain_upd_sup a) as (D1 & D2 & D3 & D4 & D5 & D6).
+  change (Inv4 links locs None (upd (emit w (TDrainReq i)) i drain_upd)).
+  destruct (drain_upd_sup a) as (D1 & D2 & D3 & D4 & D5 & D6 & D7).
   eapply inv4_upd' with (x := None);
-    [exact H1|exact Eg|unfold LR; rewrite D1, D2, D3; auto|exact D4|exact D5|exact D6| |left; reflexivity].
+    [exact H1|exact Eg|unfold LR; rewrite D1, D2, D3; auto 6|exact D4|exact D5|exact D6| |left; reflexivity].
   apply AInv_drain. rewrite trace_of_emit, has_ev_app. simpl. rewrite Nat.eqb_refl. apply orb_true_r.
 Qed.
 
-Lemma inv4_do_eff links w e :
-  Inv4 links None w -> Inv4 links None (do_eff w e).
+Lemma inv4_do_eff links locs w e :
+  Inv4 links locs None w -> Inv4 links locs None (do_eff w e).
 Proof.
   intros H. destruct e; simpl; auto using inv4_req_send, inv4_req_stop, inv4_req_kill, inv4_req_drain.
 Qed.
@@ -1545,37 +1652,70 @@ Proof.
   intros rest f0 p0 E. injection E as -> _ _ _. eapply a5. reflexivity.
 Qed.
 
-Lemma inv4_seg links w i :
-  Inv None w -> Inv4 links None w -> Inv4 links None (fst (seg w i)).
+Lemma inv4_seg links locs w i :
+  Inv None w -> Inv4 links locs None w -> Inv4 links locs None (fst (seg w i)).
 Proof.
   intros HI H. unfold seg. destruct (get w i) as [a|] eqn:Eg; [|exact H].
-  pose proof (i_act _ _ _ H i a Eg) as Aa.
+  pose proof (i_act _ _ _ _ H i a Eg) as Aa.
   destruct (a_pc a) as [| | |c rest f parked| |] eqn:Epc; try exact H.
   - (* NotStarted *)
     assert (Harm : a_armed a = true) by (eapply inv_armed; eauto; rewrite Epc; discriminate).
-    destruct (negb (Nat.eqb (a_status a) 0)); simpl.
-    + eapply inv4_start_failed; eauto using inv4_retag. eapply noterm_alive; eauto. discriminate.
-    + eapply inv4_start_cb with (a := a); eauto; try reflexivity.
-      * unfold same_sup_fields; simpl; auto.
-      * clear. ainv_tac.
-      * rewrite Epc. exact I.
-      * discriminate.
+    destruct (Nat.eqb (a_status a) 0) eqn:Est; simpl.
+    2: { eapply inv4_start_failed; eauto using inv4_retag. eapply noterm_alive; eauto. discriminate. }
+    apply Nat.eqb_eq in Est.
+    set (w0 := upd w i (fun a => upd_status a 1)).
+    assert (H0 : Inv4 links locs None w0).
+    { eapply inv4_upd' with (x := None);
+        [exact H|exact Eg|apply LR_status|reflexivity|reflexivity|reflexivity| |left; reflexivity].
+      clear. ainv_tac. }
+    assert (Eg0 : get w0 i = Some (upd_status a 1)) by (unfold w0; rewrite get_upd_same, Eg; reflexivity).
+    assert (Hstart : forall w1 a1, Inv4 links locs None w1 -> get w1 i = Some a1 ->
+               a_pc a1 = NotStarted -> a_armed a1 = true ->
+               Inv4 links locs None (start_cb w1 i PreStart)).
+    { intros w1 a1 H1 Eg1 Epc1 Harm1. rewrite <- (upd_id w1 i).
+      eapply inv4_start_cb with (a := a1) (F := fun z => z); eauto; try reflexivity.
+      - unfold same_sup_fields; auto 8.
+      - rewrite Epc1. exact I.
+      - discriminate. }
+    (* before Starting was set: no supervisor yet, and a pending kill is a logged one *)
+    pose proof (A2 _ _ _ _ Aa) as a2'. rewrite Epc in a2'. destruct (a2' eq_refl) as [Hn0 Hs0'].
+    assert (Hs0 : a_sup a = None).
+    { destruct (a_sup a) as [q|]; [|reflexivity]. destruct Hs0' as [_ L]; [discriminate|lia]. }
+    assert (Hsig0 : a_sig a = true -> has_ev (ev_kill i) (trace_of w) = true).
+    { intros Hsig. destruct (A6 _ _ _ _ Aa Harm Hsig) as [A|[_ [A|[_ A]]]]; [exact A|congruence|lia]. }
+    destruct (c_local (a_cfg a)) eqn:Eloc; [|simpl; eapply Hstart; eauto].
+    destruct (c_link (a_cfg a)) as [s|] eqn:El; [|simpl; eapply Hstart; eauto].
+    fold w0. destruct (try_link w0 i s) as [w1 ok] eqn:Etl. destruct ok; simpl.
+    + assert (H1 : Inv4 links locs None w1).
+      { eapply inv4_link_local with (w := w0) (a := upd_status a 1); eauto; simpl; auto; lia. }
+      assert (E1 : exists a1, get w1 i = Some a1 /\ core_eq a1 (upd_status a 1)).
+      { assert (Ew : w1 = fst (try_link w0 i s)) by (rewrite Etl; reflexivity).
+        destruct (get w1 i) as [a1|] eqn:G1.
+        - exists a1. split; [reflexivity|]. rewrite Ew in G1. eapply try_link_core; eauto.
+        - exfalso. assert (L : i < nact w1).
+          { rewrite Ew, nact_try_link. apply get_some_lt. congruence. }
+          apply get_some_lt in L. congruence. }
+      destruct E1 as (a1 & Eg1 & (C1 & _ & _ & _ & _ & _ & C7 & _)). simpl in C1, C7.
+      eapply Hstart; eauto; congruence.
+    + assert (E1 : w1 = w0) by (rewrite <- (try_link_false w0 i s); rewrite Etl; reflexivity).
+      rewrite E1. eapply inv4_start_failed with (a := upd_status a 1); eauto using inv4_retag.
+      apply (noterm_upd w i _ a i Eg (LR_status a 1)). eapply noterm_alive; eauto. discriminate.
   - (* Spawned *)
     assert (Harm : a_armed a = true) by (eapply inv_armed; eauto; rewrite Epc; discriminate).
     simpl. rewrite <- (upd_id w i).
     eapply inv4_start_cb with (a := a) (F := fun z => z); eauto; try reflexivity.
-    + unfold same_sup_fields; auto.
+    + unfold same_sup_fields; auto 8.
     + rewrite Epc. exact I.
     + discriminate.
   - (* inside a callback *)
     assert (Harm : a_armed a = true) by (eapply inv_armed; eauto; rewrite Epc; discriminate).
-    assert (Hadv : forall r' p', Inv4 links None (upd w i (fun a0 => upd_pc a0 (InCb c r' f p')))).
+    assert (Hadv : forall r' p', Inv4 links locs None (upd w i (fun a0 => upd_pc a0 (InCb c r' f p')))).
     { intros r' p'. eapply inv4_upd' with (x := None);
         [exact H|exact Eg|apply (LR_pc a (fun z => z)); apply LR_refl|reflexivity|reflexivity|reflexivity
         |apply AInv_pc_cb with (1 := Epc)|left; reflexivity]. }
     assert (Hadv_e : forall e r' p', is_sup_enter e = false -> subj_end e = None ->
                      (forall j, e <> TExit j PostStart ROk) ->
-                     Inv4 links None (upd (emit w e) i (fun a0 => upd_pc a0 (InCb c r' f p')))).
+                     Inv4 links locs None (upd (emit w e) i (fun a0 => upd_pc a0 (InCb c r' f p')))).
     { intros e r' p' E1 E2 E3. rewrite upd_emit. apply inv4_emit_plain; auto. }
     destruct rest as [|e r]; simpl.
     + eapply inv4_after_cb; eauto.
@@ -1592,12 +1732,12 @@ Proof.
     assert (Harm : a_armed a = true) by (eapply inv_armed; eauto; rewrite Epc; discriminate).
     destruct (a_sig a) eqn:Esig; simpl.
     + unfold consume_sig.
-      apply (inv4_sig_exit links w i a (fun z => z) None H Eg Harm Esig (LR_refl a)); auto.
-      unfold same_sup_fields; auto.
+      apply (inv4_sig_exit links locs w i a (fun z => z) None H Eg Harm Esig (LR_refl a)); auto.
+      unfold same_sup_fields; auto 8.
     + destruct (a_stop a) as [r0|] eqn:Estop; simpl.
       * unfold graceful_exit. rewrite upd_upd.
         eapply inv4_start_cb with (a := a); eauto; try reflexivity.
-        -- unfold same_sup_fields; simpl; auto.
+        -- unfold same_sup_fields; simpl; auto 8.
         -- clear - Epc. ainv_tac; try (intros; discriminate). rewrite Epc. intros; discriminate.
         -- rewrite Epc. exact I.
         -- intros _. simpl. unfold backed. rewrite (A3 _ _ _ _ Aa r0 Estop). reflexivity.
@@ -1605,14 +1745,14 @@ Proof.
         -- destruct (a_msgq a) as [|[m|] t] eqn:Emsg; simpl.
            ++ exact H.
            ++ eapply inv4_start_cb with (a := a); eauto; try reflexivity.
-              ** unfold same_sup_fields; simpl; auto.
+              ** unfold same_sup_fields; simpl; auto 8.
               ** intros Ab. pose proof (A4 _ _ _ _ Ab) as a4'. rewrite Emsg in a4'.
                  clear - Ab a4'. ainv_tac; try (intros Hm; apply a4'; right; exact Hm).
               ** rewrite Epc. exact I.
               ** discriminate.
            ++ unfold graceful_exit. rewrite upd_upd.
               eapply inv4_start_cb with (a := a); eauto; try reflexivity.
-              ** unfold same_sup_fields; simpl; auto.
+              ** unfold same_sup_fields; simpl; auto 8.
               ** intros Ab. pose proof (A4 _ _ _ _ Ab) as a4'. rewrite Emsg in a4'.
                  clear - Ab a4' Epc. ainv_tac; try (rewrite Epc; intros; discriminate);
                    try (intros Hm; apply a4'; right; exact Hm).
@@ -1620,7 +1760,7 @@ Proof.
               ** intros _. simpl. unfold backed. simpl.
                  rewrite (A4 _ _ _ _ Aa); [apply orb_true_r|rewrite Emsg; left; reflexivity].
         -- eapply inv4_start_cb with (a := a); eauto; try reflexivity.
-           ++ unfold same_sup_fields; simpl; auto.
+           ++ unfold same_sup_fields; simpl; auto 8.
            ++ clear. ainv_tac.
            ++ rewrite Epc. exact I.
            ++ discriminate.
@@ -1629,18 +1769,18 @@ Qed.
 (* ------------------------------------------------------------------ *)
 (* resuming a parked callback, aborting a task                          *)
 
-Lemma inv4_resume links w i :
-  Inv None w -> Inv4 links None w -> Inv4 links None (fst (resume w i)).
+Lemma inv4_resume links locs w i :
+  Inv None w -> Inv4 links locs None w -> Inv4 links locs None (fst (resume w i)).
 Proof.
   intros HI H. unfold resume. destruct (get w i) as [a|] eqn:Eg; [|exact H].
-  pose proof (i_act _ _ _ H i a Eg) as Aa.
+  pose proof (i_act _ _ _ _ H i a Eg) as Aa.
   destruct (a_pc a) as [| | |c rest f p| |] eqn:Epc; try exact H.
   destruct (a_sig a) eqn:Esig; [|exact H]. cbn [fst].
   assert (Harm : a_armed a = true) by (eapply inv_armed; eauto; rewrite Epc; discriminate).
   assert (Nt : noterm w i) by (eapply noterm_alive; eauto; discriminate).
   unfold consume_sig.
   set (w1 := upd w i (fun a0 => upd_sig a0 false true)).
-  assert (H1 : Inv4 links (Some i) w1).
+  assert (H1 : Inv4 links locs (Some i) w1).
   { eapply inv4_upd' with (x := None);
       [exact H|exact Eg|apply (LR_sig a (fun z => z)); apply LR_refl|reflexivity|reflexivity|reflexivity
       | |right; left; reflexivity].
@@ -1662,22 +1802,22 @@ Proof.
       rewrite has_ev_app, A. reflexivity.
 Qed.
 
-Lemma inv4_abort links w i :
-  Inv None w -> Inv4 links None w -> Inv4 links None (abort w i).
+Lemma inv4_abort links locs w i :
+  Inv None w -> Inv4 links locs None w -> Inv4 links locs None (abort w i).
 Proof.
   intros HI H. unfold abort. destruct (get w i) as [a|] eqn:Eg; [|exact H].
-  pose proof (i_act _ _ _ H i a Eg) as Aa.
+  pose proof (i_act _ _ _ _ H i a Eg) as Aa.
   set (ev := if a_notify a then Some (STerminated i false (Some R_CANCELLED)) else None).
   assert (Nt : a_armed a = true -> noterm w i) by (intros; eapply noterm_alive; eauto; discriminate).
-  assert (HA : Inv4 links (Some i) (emit w (TAborted i))).
+  assert (HA : Inv4 links locs (Some i) (emit w (TAborted i))).
   { apply inv4_emit with (x := None); auto; intros; discriminate. }
-  assert (Hev : forall tr2, ending_of i tr2 EndNone = EndNone \/ a_sup a = None ->
+  assert (Hev : forall tr2, ending_of i tr2 EndNone = EndNone \/ a_notify a = false ->
                 has_ev (ev_abort i) tr2 = true ->
-                forall e, ev = Some e -> about e = i /\ is_terminal e = true /\ (cls e tr2 = true \/ a_sup a = None)).
+                forall e, ev = Some e -> about e = i /\ is_terminal e = true /\ (cls locs e tr2 = true \/ a_sup a = None)).
   { intros tr2 He Hab e Ee. unfold ev in Ee. destruct (a_notify a); [|discriminate]. injection Ee as <-.
-    split; [reflexivity|]. split; [reflexivity|]. destruct He as [He|He]; [left|right; exact He].
+    split; [reflexivity|]. split; [reflexivity|]. destruct He as [He|He]; [left|discriminate].
     simpl. rewrite He. exact Hab. }
-  assert (Hquiet : a_armed a = true -> Inv4 links None (cleanup (emit w (TAborted i)) i ev)).
+  assert (Hquiet : a_armed a = true -> Inv4 links locs None (cleanup (emit w (TAborted i)) i ev)).
   { intros Harm. eapply inv4_cleanup with (a := a); eauto.
     - apply noterm_emit; [reflexivity|auto].
     - apply Hev.
@@ -1703,27 +1843,27 @@ Qed.
 (* ------------------------------------------------------------------ *)
 (* a poll, a label, a schedule                                          *)
 
-Lemma inv4_segs links fuel w i :
-  Inv None w -> pre_seg w i -> Inv4 links None w -> Inv4 links None (segs fuel w i).
+Lemma inv4_segs links locs fuel w i :
+  Inv None w -> pre_seg w i -> Inv4 links locs None w -> Inv4 links locs None (segs fuel w i).
 Proof.
   revert w. induction fuel as [|k IH]; intros w HI Hpre H; simpl; [exact H|].
-  pose proof (inv4_seg links w i HI H) as H'.
+  pose proof (inv4_seg links locs w i HI H) as H'.
   destruct (seg w i) as [w' go] eqn:E. simpl in H'.
   destruct (inv_seg w i w' go HI Hpre E) as [HI' Hgo].
   destruct go; [|exact H']. apply IH; auto. apply unparked_pre. apply Hgo. reflexivity.
 Qed.
 
-Lemma inv4_poll links fuel w i :
-  Inv None w -> Inv4 links None w -> Inv4 links None (poll fuel w i).
+Lemma inv4_poll links locs fuel w i :
+  Inv None w -> Inv4 links locs None w -> Inv4 links locs None (poll fuel w i).
 Proof.
-  intros HI H. unfold poll. pose proof (inv4_resume links w i HI H) as H'.
+  intros HI H. unfold poll. pose proof (inv4_resume links locs w i HI H) as H'.
   destruct (resume w i) as [w' go] eqn:E. simpl in H'.
   destruct (inv_resume w i w' go HI E) as [HI' Hgo].
   destruct go; [|exact H']. apply inv4_segs; auto.
 Qed.
 
-Lemma inv4_step links w l :
-  Inv None w -> Inv4 links None w -> Inv4 links None (step w l).
+Lemma inv4_step links locs w l :
+  Inv None w -> Inv4 links locs None w -> Inv4 links locs None (step w l).
 Proof.
   intros HI H. destruct l as [i|i m|i r|i|i|g|i|i fuel]; simpl.
   - destruct (get w i) as [a|] eqn:Eg; [|exact H].
@@ -1737,14 +1877,14 @@ Proof.
   - apply inv4_req_stop. exact H.
   - apply inv4_req_kill. exact H.
   - apply inv4_req_drain. exact H.
-  - destruct H as [h1 h2 h3 h4 h5]. constructor; [exact h1|exact h2|exact h3|exact h4|].
+  - destruct H as [h1 h2 h3 h4 h5 h6]. constructor; [exact h1|exact h2|exact h3|exact h4| |exact h6].
     intros s. destruct (h5 s) as [q1 q2 q3 q4]. constructor; [exact q1|exact q2|exact q3|exact q4].
   - apply inv4_abort; assumption.
   - apply inv4_poll; assumption.
 Qed.
 
-Lemma inv4_run links ls w :
-  Inv None w -> Inv4 links None w -> Inv4 links None (run w ls).
+Lemma inv4_run links locs ls w :
+  Inv None w -> Inv4 links locs None w -> Inv4 links locs None (run w ls).
 Proof.
   unfold run. revert w. induction ls as [|l t IH]; simpl; intros w HI H; [exact H|].
   apply IH; [apply inv_step; exact HI|apply inv4_step; assumption].
@@ -1757,7 +1897,14 @@ Proof.
   revert c. induction cfgs as [|x t IH]; intros [|c]; simpl; auto.
 Qed.
 
-Lemma inv4_init cfgs msgs : Inv4 (map c_link cfgs) None (init cfgs msgs).
+Lemma nth_map_local (cfgs : list cfg) c :
+  nth c (map c_local cfgs) false =
+  match nth_error (map new_actor cfgs) c with Some a => c_local (a_cfg a) | None => false end.
+Proof.
+  revert c. induction cfgs as [|x t IH]; intros [|c]; simpl; auto.
+Qed.
+
+Lemma inv4_init cfgs msgs : Inv4 (map c_link cfgs) (map c_local cfgs) None (init cfgs msgs).
 Proof.
   assert (Hget : forall j a, get (init cfgs msgs) j = Some a -> exists c, a = new_actor c).
   { intros j a. unfold get, init. simpl. rewrite nth_error_map.
@@ -1770,31 +1917,33 @@ Proof.
   - reflexivity.
   - intros i a Eg. destruct (Hget i a Eg) as (c & ->).
     constructor; simpl; auto; try (intros; discriminate); try (intros []).
+    split; [reflexivity|]. intros N. exfalso. apply N. reflexivity.
   - intros p ap ks c Ep Ek Hin. destruct (Hget p ap Ep) as (c0 & ->). simpl in Ek.
     injection Ek as <-. destruct Hin.
   - intros s. constructor; rewrite HK; simpl; auto; intros ? [].
+  - intros c. unfold local_of, get, init. simpl. apply nth_map_local.
 Qed.
 
 (* ------------------------------------------------------------------ *)
 (* the oracle accepts every trace of the model                          *)
 
 Theorem C04_oracle_sound_proof cfgs msgs ls :
-  check_C04 (map c_link cfgs) (trace_of (run (init cfgs msgs) ls)) = true.
+  check_C04 (map c_link cfgs) (map c_local cfgs) (trace_of (run (init cfgs msgs) ls)) = true.
 Proof.
   unfold check_C04.
-  apply (i_chk _ _ _ (inv4_run (map c_link cfgs) ls _ (inv_init cfgs msgs) (inv4_init cfgs msgs))).
+  apply (i_chk _ _ _ _ (inv4_run (map c_link cfgs) (map c_local cfgs) ls _ (inv_init cfgs msgs) (inv4_init cfgs msgs))).
 Qed.
 
 Theorem C04_oracle_sound_dops cfgs msgs rounds fuel order ops :
-  check_C04 (map c_link cfgs) (trace_of (run_dops rounds fuel order (init cfgs msgs) ops)) = true.
+  check_C04 (map c_link cfgs) (map c_local cfgs) (trace_of (run_dops rounds fuel order (init cfgs msgs) ops)) = true.
 Proof. rewrite run_dops_labels. apply C04_oracle_sound_proof. Qed.
 
 (* ------------------------------------------------------------------ *)
 (* what the accepted traces look like (consequences of the oracle)      *)
 
-Lemma check_go_split links seen t1 e t2 :
-  check_C04_go links seen (t1 ++ e :: t2) = true ->
-  match e with TEnter s (Sup x) => judge_sup links (seen ++ t1) s x = true | _ => True end.
+Lemma check_go_split links locs seen t1 e t2 :
+  check_C04_go links locs seen (t1 ++ e :: t2) = true ->
+  match e with TEnter s (Sup x) => judge_sup links locs (seen ++ t1) s x = true | _ => True end.
 Proof.
   revert seen. induction t1 as [|y r IH]; intros seen; simpl.
   - rewrite app_nil_r. intros H. apply andb_true_iff in H as [H _].
@@ -1811,10 +1960,10 @@ Section Consequences.
   Variables (cfgs : list cfg) (msgs : list (nat * script)) (ls : list label).
   Let t := trace_of (run (init cfgs msgs) ls).
 
-  Lemma judged t1 s x t2 : t = t1 ++ TEnter s (Sup x) :: t2 -> judge_sup (map c_link cfgs) t1 s x = true.
+  Lemma judged t1 s x t2 : t = t1 ++ TEnter s (Sup x) :: t2 -> judge_sup (map c_link cfgs) (map c_local cfgs) t1 s x = true.
   Proof.
     intros E. pose proof (C04_oracle_sound_proof cfgs msgs ls) as H. fold t in H. rewrite E in H.
-    apply (check_go_split _ [] t1 (TEnter s (Sup x)) t2 H).
+    apply (check_go_split _ _ [] t1 (TEnter s (Sup x)) t2 H).
   Qed.
 
   (* an event is only ever handled by the actor its subject was spawn-linked to *)
@@ -1854,28 +2003,54 @@ Section Consequences.
     destruct (ending_of c t1 EndNone); try discriminate. apply Nat.eqb_eq in J. congruence.
   Qed.
 
+  (* the graceful clause, shared by both shapes of the event *)
+  Lemma graceful_clause c (b : bool) r t1 :
+    match r with
+    | Some 1 => b && (has_ev (fun e => match e with TDrainReq j => Nat.eqb j c | _ => false end) t1
+                      || has_ev (fun e => match e with TStopReq j r' => Nat.eqb j c && onat_eqb (Some 1) r' | _ => false end) t1)
+    | _ => b && has_ev (fun e => match e with TStopReq j r' => Nat.eqb j c && onat_eqb r r' | _ => false end) t1
+    end = true ->
+    b = true /\ (has_ev (ev_stop c r) t1 = true \/ (r = Some R_DRAINED /\ has_ev (ev_drain c) t1 = true)).
+  Proof.
+    intros J. destruct r as [[|[|n]]|]; apply andb_true_iff in J as [Jb J]; (split; [exact Jb|]);
+      try (left; exact J).
+    apply orb_true_iff in J as [J|J]; [right; auto|left; exact J].
+  Qed.
+
+  (* an event WITH state: only about a Send actor (a thread-local state is never sent),
+     whose post_stop returned Ok, with the requested reason *)
   Theorem classification_with_state t1 s c r t2 :
     t = t1 ++ TEnter s (Sup (STerminated c true r)) :: t2 ->
+    nth c (map c_local cfgs) false = false /\
     ending_of c t1 EndNone = EndGraceful /\
     (has_ev (ev_stop c r) t1 = true \/ (r = Some R_DRAINED /\ has_ev (ev_drain c) t1 = true)).
   Proof.
     intros E. pose proof (judged _ _ _ _ E) as J. unfold judge_sup in J.
     apply andb_true_iff in J as [_ J]. apply andb_true_iff in J as [_ J]. simpl in J.
-    destruct (ending_of c t1 EndNone); try discriminate. split; [reflexivity|].
-    destruct r as [[|[|n]]|]; try (left; exact J).
-    apply orb_true_iff in J as [J|J]; [right; auto|left; exact J].
+    destruct (ending_of c t1 EndNone); try discriminate.
+    destruct (graceful_clause c _ r t1 J) as [Jb Jr].
+    split; [|split; [reflexivity|exact Jr]].
+    destruct (nth c (map c_local cfgs) false); [discriminate|reflexivity].
   Qed.
 
+  (* an event WITHOUT state: killed / task cancelled (no callback of c ended it), or the graceful
+     exit of a thread-local actor *)
   Theorem classification_without_state t1 s c r t2 :
     t = t1 ++ TEnter s (Sup (STerminated c false r)) :: t2 ->
-    ending_of c t1 EndNone = EndNone /\
-    ((r = Some R_KILLED /\ has_ev (ev_kill c) t1 = true) \/
-     (r = Some R_CANCELLED /\ has_ev (ev_abort c) t1 = true)).
+    (ending_of c t1 EndNone = EndNone /\
+     ((r = Some R_KILLED /\ has_ev (ev_kill c) t1 = true) \/
+      (r = Some R_CANCELLED /\ has_ev (ev_abort c) t1 = true)))
+    \/ (nth c (map c_local cfgs) false = true /\ ending_of c t1 EndNone = EndGraceful /\
+        (has_ev (ev_stop c r) t1 = true \/ (r = Some R_DRAINED /\ has_ev (ev_drain c) t1 = true))).
   Proof.
     intros E. pose proof (judged _ _ _ _ E) as J. unfold judge_sup in J.
     apply andb_true_iff in J as [_ J]. apply andb_true_iff in J as [_ J]. simpl in J.
-    destruct (ending_of c t1 EndNone); try discriminate. split; [reflexivity|].
-    destruct r as [[|[|[|n]]]|]; try discriminate; [left|right]; auto.
+    destruct (ending_of c t1 EndNone); try discriminate.
+    - left. split; [reflexivity|].
+      destruct r as [[|[|[|n]]]|]; try discriminate; [left|right]; auto.
+    - right. destruct (graceful_clause c _ r t1 J) as [Jb Jr].
+      split; [|split; [reflexivity|exact Jr]].
+      destruct (nth c (map c_local cfgs) false); [reflexivity|discriminate].
   Qed.
 
   (* a failed or cancelled start is never reported as a termination *)
@@ -1884,8 +2059,8 @@ Section Consequences.
     ending_of (about x) t1 EndNone <> EndStartFailed.
   Proof.
     intros E Ht. destruct x as [c|c [|] r|c txt]; try discriminate; simpl.
-    - rewrite (proj1 (classification_with_state _ _ _ _ _ E)). discriminate.
-    - rewrite (proj1 (classification_without_state _ _ _ _ _ E)). discriminate.
+    - rewrite (proj1 (proj2 (classification_with_state _ _ _ _ _ E))). discriminate.
+    - destruct (classification_without_state _ _ _ _ _ E) as [[A _]|(_ & A & _)]; rewrite A; discriminate.
     - rewrite (classification_failed _ _ _ _ _ E). discriminate.
   Qed.
 End Consequences.
@@ -1901,8 +2076,8 @@ Proof.
   destruct cb as [| | |x|]; simpl; auto. destruct (Nat.eqb j s && p x); reflexivity.
 Qed.
 
-Lemma check_counts links t s c :
-  check_C04_go links [] t = true ->
+Lemma check_counts links locs t s c :
+  check_C04_go links locs [] t = true ->
   count_sup s (fun y => is_terminal y && Nat.eqb (about y) c) t <= 1 /\
   count_sup s (fun y => negb (is_terminal y) && Nat.eqb (about y) c) t <= 1.
 Proof.
@@ -1929,11 +2104,11 @@ Qed.
 
 Theorem terminal_at_most_once cfgs msgs ls s c :
   count_sup s (fun y => is_terminal y && Nat.eqb (about y) c) (trace_of (run (init cfgs msgs) ls)) <= 1.
-Proof. apply (check_counts _ _ s c (C04_oracle_sound_proof cfgs msgs ls)). Qed.
+Proof. apply (check_counts _ _ _ s c (C04_oracle_sound_proof cfgs msgs ls)). Qed.
 
 Theorem started_at_most_once cfgs msgs ls s c :
   count_sup s (fun y => negb (is_terminal y) && Nat.eqb (about y) c) (trace_of (run (init cfgs msgs) ls)) <= 1.
-Proof. apply (check_counts _ _ s c (C04_oracle_sound_proof cfgs msgs ls)). Qed.
+Proof. apply (check_counts _ _ _ s c (C04_oracle_sound_proof cfgs msgs ls)). Qed.
 
 (* start() returning Err: nothing is appended to anybody's supervision queue *)
 Theorem start_failed_silent w i s : supq_of (start_failed w i) s = supq_of w s.
@@ -2056,7 +2231,7 @@ Proof.
   assert (F5 : forall e, pcf k w (finish (upd w k (fun a0 => upd_status a0 5)) k e)).
   { intros e. eapply pcf_trans; [apply pcf_upd_own|apply pcf_finish]. }
   destruct c; destruct f; auto using pcf_start_failed, pcf_finish, pcf_upd_own.
-  - destruct (c_link (a_cfg a)) as [sp|].
+  - destruct (if c_local (a_cfg a) then None else c_link (a_cfg a)) as [sp|].
     + pose proof (pcf_try_link k w sp) as E. destruct (try_link w k sp) as [w1 ok]. simpl in E.
       eapply pcf_trans; [exact E|]. destruct ok; [|apply pcf_start_failed].
       eapply pcf_trans; [apply pcf_upd_own|apply pcf_emit].
@@ -2068,7 +2243,12 @@ Proof.
   unfold seg. destruct (get w k) as [a|]; [|apply pcf_refl].
   destruct (a_pc a) as [| | |c rest f parked| |]; cbn [fst]; try apply pcf_refl.
   - destruct (negb _); cbn [fst]; [apply pcf_start_failed|].
-    eapply pcf_trans; [apply pcf_upd_own|apply pcf_start_cb].
+    destruct (if c_local (a_cfg a) then c_link (a_cfg a) else None) as [sp|].
+    + pose proof (pcf_try_link k (upd w k (fun a0 => upd_status a0 1)) sp) as E.
+      destruct (try_link (upd w k (fun a0 => upd_status a0 1)) k sp) as [w1 ok]. simpl in E.
+      eapply pcf_trans; [apply pcf_upd_own|]. eapply pcf_trans; [exact E|].
+      destruct ok; cbn [fst]; [apply pcf_start_cb|apply pcf_start_failed].
+    + cbn [fst]. eapply pcf_trans; [apply pcf_upd_own|apply pcf_start_cb].
   - apply pcf_start_cb.
   - destruct rest as [|e r]; cbn [fst].
     + eapply pcf_trans; [apply pcf_emit|apply pcf_after_cb].
